@@ -1,9 +1,26 @@
 /-
 C03: rotation constructors of xfab.tools / xfab.laue and their inverses.
+
+Contents (every statement is proved for `Tools.*`; the `_laue` twins follow from the bridges `C03.laue_* : Laue.f = Tools.f := rfl`,
+which break as soon as the two modules stop being line-by-line identical):
+ 1. `euler_to_u_eq`, `euler_to_u_isRot`                       Bunge  Rz φ1 · Rx Φ · Rz φ2
+ 2. `form_omega_mat_eq/_isRot`, `form_omega_mat_general_eq/_isRot`   Rz ω,  Rx χ · Ry w · Rz ω
+ 3. `detect_tilt_eq/_isRot`                                   Rx · Ry · Rz
+ 4. `quart_to_omega_eq/_isRot`                                P · Rz(w°) · Pᵀ,  P = Rx wx · Ry wy
+ 5. `rod_to_u_formula`, `rod_to_u_isRot`, `rod_to_u_zero`, `rod_to_u_axis_angle`, `rod_axis_unit`
+ 6. `u_to_rod_rod_to_u(_sharp)`; finding `u_to_rod_rod_to_u_none` (guard fires iff 1 + r·r > 4e16)
+ 7. `rod_to_u_u_to_rod`, `rod_to_u_u_to_rod_exists`           full strength, every proper rotation
+ 8. `arctan2_range`, `arctan2_spec`, `arctan2_correct`, `arctan2_approx`, `u_to_euler_range`,
+    `euler_roundtrip_generic` (exact, no zeroing), `euler_roundtrip_generic_approx` (4e-8, always),
+    `euler_roundtrip_lock0`, `euler_roundtrip_lockpi` (1e-6, at and near lock, every proper rotation),
+    `u_to_euler_roundtrip`, `u_to_euler_inverts` (all proper rotations, never raises, range, 1e-6),
+    `u_to_euler_euler_to_u_exact` (recovers the angles themselves), `euler_roundtrip_lock0_exact/_lockpi_exact`,
+    finding `euler_roundtrip_lock0_not_exact` (the `1e-8` relative zeroing in `_arctan2` makes the exact round trip false).
 -/
 import XfabVerif.Gen.ToolsReal
 import XfabVerif.Gen.LaueReal
 import XfabVerif.Spec.Basic
+import Mathlib.Analysis.SpecialFunctions.Trigonometric.Bounds
 
 set_option linter.unusedVariables false
 set_option linter.style.longLine false
@@ -17,15 +34,15 @@ namespace C03
 
 /-! ### Bridges: the Laue twins of the rotation functions are definitionally the Tools ones -/
 
-theorem laue_euler_to_u : Laue.euler_to_u = Tools.euler_to_u := rfl
-theorem laue_form_omega_mat : Laue.form_omega_mat = Tools.form_omega_mat := rfl
-theorem laue_form_omega_mat_general : Laue.form_omega_mat_general = Tools.form_omega_mat_general := rfl
-theorem laue_detect_tilt : Laue.detect_tilt = Tools.detect_tilt := rfl
-theorem laue_quart_to_omega : Laue.quart_to_omega = Tools.quart_to_omega := rfl
-theorem laue_rod_to_u : Laue.rod_to_u = Tools.rod_to_u := rfl
-theorem laue_u_to_rod : Laue.u_to_rod = Tools.u_to_rod := rfl
-theorem laue_arctan2 : Laue._arctan2 = Tools._arctan2 := rfl
-theorem laue_u_to_euler : Laue.u_to_euler = Tools.u_to_euler := rfl
+lemma laue_euler_to_u : Laue.euler_to_u = Tools.euler_to_u := rfl
+lemma laue_form_omega_mat : Laue.form_omega_mat = Tools.form_omega_mat := rfl
+lemma laue_form_omega_mat_general : Laue.form_omega_mat_general = Tools.form_omega_mat_general := rfl
+lemma laue_detect_tilt : Laue.detect_tilt = Tools.detect_tilt := rfl
+lemma laue_quart_to_omega : Laue.quart_to_omega = Tools.quart_to_omega := rfl
+lemma laue_rod_to_u : Laue.rod_to_u = Tools.rod_to_u := rfl
+lemma laue_u_to_rod : Laue.u_to_rod = Tools.u_to_rod := rfl
+lemma laue_arctan2 : Laue._arctan2 = Tools._arctan2 := rfl
+lemma laue_u_to_euler : Laue.u_to_euler = Tools.u_to_euler := rfl
 
 end C03
 
@@ -148,7 +165,7 @@ def crossMat (u : Fin 3 → ℝ) : Matrix (Fin 3) (Fin 3) ℝ :=
   !![0, -u 2, u 1; u 2, 0, -u 0; -u 1, u 0, 0]
 
 /-- sanity: `crossMat u` really is the (right-handed) cross product with `u` -/
-theorem crossMat_mulVec (u v : Fin 3 → ℝ) : crossMat u *ᵥ v = crossProduct u v := by
+lemma crossMat_mulVec (u v : Fin 3 → ℝ) : crossMat u *ᵥ v = crossProduct u v := by
   ext i; fin_cases i <;>
     simp [crossMat, Matrix.mulVec, dotProduct, Fin.sum_univ_three, crossProduct] <;> ring
 
@@ -350,3 +367,1308 @@ theorem u_to_rod_rod_to_u_laue (r : Fin 3 → ℝ) (h : r ⬝ᵥ r < 1e16) :
 theorem u_to_rod_rod_to_u_none_laue (r : Fin 3 → ℝ) (h : 4e16 < 1 + r ⬝ᵥ r) :
     Laue.u_to_rod (Laue.rod_to_u r) = none := by
   rw [laue_rod_to_u, laue_u_to_rod]; exact u_to_rod_rod_to_u_none r h
+
+/-! ### 8a. `_arctan2` and the range of `u_to_euler` -/
+
+
+/-- C03 (helper): readable form of the generated `_arctan2` decision tree. -/
+theorem arctan2_eq (y x : ℝ) : Tools._arctan2 y x =
+    if |x| < 1e-8 * max |x| |y| then
+      (if |y| < 1e-8 * max |x| |y| then none
+       else if 0 < y then some (Real.pi / 2) else if y < 0 then some (-Real.pi / 2) else none)
+    else if |y| < 1e-8 * max |x| |y| then
+      (if 0 < x then some (Real.arctan (0 / x))
+       else if x < 0 then some (Real.arctan (0 / x) + Real.pi) else none)
+    else if 0 < x then some (Real.arctan (y / x))
+    else if x < 0 then
+      (if 0 ≤ y then some (Real.arctan (y / x) + Real.pi) else some (Real.arctan (y / x) - Real.pi))
+    else if 0 < y then some (Real.pi / 2) else if y < 0 then some (-Real.pi / 2) else none := by
+  unfold Tools._arctan2
+  simp only [gt_iff_lt, ge_iff_le]
+  split_ifs <;> first | rfl | (exfalso; linarith) | (exfalso; apply ‹¬x = 0›; linarith)
+
+namespace C03
+
+
+lemma sqrt_one_add_div_sq {x y : ℝ} (hx : x ≠ 0) :
+    Real.sqrt (1 + (y / x) ^ 2) = Real.sqrt (x ^ 2 + y ^ 2) / |x| := by
+  have : 1 + (y / x) ^ 2 = (x ^ 2 + y ^ 2) / x ^ 2 := by field_simp
+  rw [this, Real.sqrt_div (by positivity), Real.sqrt_sq_eq_abs]
+
+lemma cos_arctan_div {x y : ℝ} (hx : x ≠ 0) :
+    Real.cos (Real.arctan (y / x)) = |x| / Real.sqrt (x ^ 2 + y ^ 2) := by
+  rw [Real.cos_arctan, sqrt_one_add_div_sq hx, one_div, inv_div]
+
+lemma sin_arctan_div {x y : ℝ} (hx : x ≠ 0) :
+    Real.sin (Real.arctan (y / x)) = (y / x) * |x| / Real.sqrt (x ^ 2 + y ^ 2) := by
+  rw [Real.sin_arctan, sqrt_one_add_div_sq hx]
+  have h1 : |x| ≠ 0 := abs_ne_zero.mpr hx
+  have h2 : Real.sqrt (x ^ 2 + y ^ 2) ≠ 0 := by
+    apply (Real.sqrt_pos.mpr _).ne'
+    positivity
+  field_simp
+
+/-- the value of `x` that `_arctan2 y x` actually uses after its relative zeroing -/
+def zx (y x : ℝ) : ℝ := if |x| < 1e-8 * max |x| |y| then 0 else x
+/-- the value of `y` that `_arctan2 y x` actually uses after its relative zeroing -/
+def zy (y x : ℝ) : ℝ := if |y| < 1e-8 * max |x| |y| then 0 else y
+
+end C03
+
+/-- C03: `_arctan2` result range: `(-π, π]`. -/
+theorem arctan2_range {y x t : ℝ} (h : Tools._arctan2 y x = some t) : -Real.pi < t ∧ t ≤ Real.pi := by
+  have hp := Real.pi_pos
+  rw [arctan2_eq] at h
+  have hlo := Real.neg_pi_div_two_lt_arctan (y / x)
+  have hhi := Real.arctan_lt_pi_div_two (y / x)
+  split_ifs at h with h1 h2 h3 h4 h5 h6 h7 h8 h9 h10 h11 h12 <;>
+    simp only [Option.some.injEq] at h <;> subst h
+  · constructor <;> linarith
+  · constructor <;> linarith
+  · simp; constructor <;> linarith
+  · simp; linarith
+  · constructor <;> linarith
+  · have : y / x ≤ 0 := div_nonpos_of_nonneg_of_nonpos h10 h9.le
+    have := Real.arctan_le_zero.mpr this
+    constructor <;> linarith
+  · have : 0 < y / x := div_pos_of_neg_of_neg (not_le.mp h10) h9
+    have := Real.arctan_pos.mpr this
+    constructor <;> linarith
+  · constructor <;> linarith
+  · constructor <;> linarith
+
+namespace C03
+
+
+lemma sqrt_zero_sq_add (y : ℝ) : Real.sqrt ((0:ℝ) ^ 2 + y ^ 2) = |y| := by
+  rw [zero_pow two_ne_zero, zero_add, Real.sqrt_sq_eq_abs]
+lemma sqrt_sq_add_zero (x : ℝ) : Real.sqrt (x ^ 2 + (0:ℝ) ^ 2) = |x| := by
+  rw [zero_pow two_ne_zero, add_zero, Real.sqrt_sq_eq_abs]
+
+end C03
+
+/-- C03: `_arctan2` never fails away from the origin; its result `t ∈ (-π, π]` is the polar angle of the
+(relatively zeroed) point `(zx, zy)`. -/
+theorem arctan2_spec {y x : ℝ} (h : x ≠ 0 ∨ y ≠ 0) :
+    ∃ t, Tools._arctan2 y x = some t ∧ -Real.pi < t ∧ t ≤ Real.pi ∧
+      Real.cos t = zx y x / Real.sqrt (zx y x ^ 2 + zy y x ^ 2) ∧
+      Real.sin t = zy y x / Real.sqrt (zx y x ^ 2 + zy y x ^ 2) := by
+  have hp := Real.pi_pos
+  have hm : 0 < max |x| |y| := by
+    rcases h with h | h
+    · exact lt_max_of_lt_left (abs_pos.mpr h)
+    · exact lt_max_of_lt_right (abs_pos.mpr h)
+  have hnot : ¬ (|x| < 1e-8 * max |x| |y| ∧ |y| < 1e-8 * max |x| |y|) := by
+    rintro ⟨h1, h2⟩
+    have := max_lt h1 h2
+    nlinarith
+  suffices H : ∃ t, Tools._arctan2 y x = some t ∧
+      Real.cos t = zx y x / Real.sqrt (zx y x ^ 2 + zy y x ^ 2) ∧
+      Real.sin t = zy y x / Real.sqrt (zx y x ^ 2 + zy y x ^ 2) by
+    obtain ⟨t, h1, h2, h3⟩ := H
+    exact ⟨t, h1, (arctan2_range h1).1, (arctan2_range h1).2, h2, h3⟩
+  rw [arctan2_eq]
+  unfold zx zy
+  by_cases h1 : |x| < 1e-8 * max |x| |y|
+  · have h2 : ¬ |y| < 1e-8 * max |x| |y| := fun h2 => hnot ⟨h1, h2⟩
+    have hy : y ≠ 0 := by
+      rintro rfl
+      apply h2
+      have := hm
+      simp only [abs_zero] at this ⊢
+      linarith
+    rw [if_pos h1, if_neg h2, if_pos h1, if_neg h2, sqrt_zero_sq_add]
+    rcases lt_or_gt_of_ne hy with hy' | hy'
+    · rw [if_neg (not_lt.mpr hy'.le), if_pos hy']
+      refine ⟨_, rfl, ?_, ?_⟩
+      · rw [neg_div, Real.cos_neg, Real.cos_pi_div_two, zero_div]
+      · rw [neg_div, Real.sin_neg, Real.sin_pi_div_two, abs_of_neg hy', div_neg, div_self hy]
+    · rw [if_pos hy']
+      refine ⟨_, rfl, ?_, ?_⟩
+      · rw [Real.cos_pi_div_two, zero_div]
+      · rw [Real.sin_pi_div_two, abs_of_pos hy', div_self hy]
+  · rw [if_neg h1, if_neg h1]
+    have hx : x ≠ 0 := by
+      rintro rfl
+      apply h1
+      have := hm
+      simp only [abs_zero] at this ⊢
+      linarith
+    by_cases h2 : |y| < 1e-8 * max |x| |y|
+    · rw [if_pos h2, if_pos h2, sqrt_sq_add_zero, zero_div, Real.arctan_zero]
+      rcases lt_or_gt_of_ne hx with hx' | hx'
+      · rw [if_neg (not_lt.mpr hx'.le), if_pos hx']
+        refine ⟨_, rfl, ?_, ?_⟩
+        · rw [zero_add, Real.cos_pi, abs_of_neg hx', div_neg, div_self hx]
+        · rw [zero_add, Real.sin_pi, zero_div]
+      · rw [if_pos hx']
+        refine ⟨_, rfl, ?_, ?_⟩
+        · rw [Real.cos_zero, abs_of_pos hx', div_self hx]
+        · rw [Real.sin_zero, zero_div]
+    · rw [if_neg h2, if_neg h2]
+      have hS : Real.sqrt (x ^ 2 + y ^ 2) ≠ 0 := by
+        apply (Real.sqrt_pos.mpr _).ne'
+        positivity
+      rcases lt_or_gt_of_ne hx with hx' | hx'
+      · rw [if_neg (not_lt.mpr hx'.le), if_pos hx']
+        by_cases hy : 0 ≤ y
+        · rw [if_pos hy]
+          refine ⟨_, rfl, ?_, ?_⟩
+          · rw [Real.cos_add_pi, cos_arctan_div hx, abs_of_neg hx']; ring
+          · rw [Real.sin_add_pi, sin_arctan_div hx, abs_of_neg hx']; field_simp
+        · rw [if_neg hy]
+          refine ⟨_, rfl, ?_, ?_⟩
+          · rw [Real.cos_sub_pi, cos_arctan_div hx, abs_of_neg hx']; ring
+          · rw [Real.sin_sub_pi, sin_arctan_div hx, abs_of_neg hx']; field_simp
+      · rw [if_pos hx']
+        refine ⟨_, rfl, ?_, ?_⟩
+        · rw [cos_arctan_div hx, abs_of_pos hx']
+        · rw [sin_arctan_div hx, abs_of_pos hx']; field_simp
+
+namespace C03
+
+
+lemma wrap_range {t : ℝ} (h1 : -Real.pi < t) (h2 : t ≤ Real.pi) :
+    (0 ≤ (if t < 0 then t + 2 * Real.pi else t)) ∧ (if t < 0 then t + 2 * Real.pi else t) ≤ 2 * Real.pi := by
+  have hp := Real.pi_pos
+  split_ifs with h
+  · constructor <;> linarith
+  · constructor <;> linarith
+
+end C03
+
+/-- C03: `u_to_euler` returns angles in `[0,2π] × [0,π] × [0,2π]`. -/
+theorem u_to_euler_range {U : Matrix (Fin 3) (Fin 3) ℝ} {e : Fin 3 → ℝ}
+    (h : Tools.u_to_euler U = some e) :
+    (0 ≤ e 0 ∧ e 0 ≤ 2 * Real.pi) ∧ (0 ≤ e 1 ∧ e 1 ≤ Real.pi) ∧ (0 ≤ e 2 ∧ e 2 ≤ 2 * Real.pi) := by
+  have hp := Real.pi_pos
+  have hP0 := Real.arccos_nonneg (U 2 2)
+  have hP1 := Real.arccos_le_pi (U 2 2)
+  unfold Tools.u_to_euler at h
+  simp only [] at h
+  split at h
+  · split at h
+    · cases h
+    · rename_i t ht
+      obtain ⟨hr1, hr2⟩ := arctan2_range ht
+      split at h <;> simp only [Option.some.injEq] at h <;> subst h <;>
+        refine ⟨⟨?_, ?_⟩, ⟨?_, ?_⟩, ⟨?_, ?_⟩⟩ <;> (try simp) <;> (try linarith)
+  · split at h
+    · split at h
+      · cases h
+      · rename_i t ht
+        obtain ⟨hr1, hr2⟩ := arctan2_range ht
+        split at h <;> simp only [Option.some.injEq] at h <;> subst h <;>
+          refine ⟨⟨?_, ?_⟩, ⟨?_, ?_⟩, ⟨?_, ?_⟩⟩ <;> (try simp) <;> (try linarith)
+    · split at h
+      · cases h
+      · rename_i t ht
+        obtain ⟨hr1, hr2⟩ := arctan2_range ht
+        split at h
+        · cases h
+        · rename_i t2 ht2
+          obtain ⟨hs1, hs2⟩ := arctan2_range ht2
+          split at h <;> split at h <;> simp only [Option.some.injEq] at h <;> subst h <;>
+            refine ⟨⟨?_, ?_⟩, ⟨?_, ?_⟩, ⟨?_, ?_⟩⟩ <;> (try simp) <;> (try linarith)
+
+namespace C03
+/-- `phi + 2π if phi < 0` -/
+def wrap (t : ℝ) : ℝ := if t < 0 then t + 2 * Real.pi else t
+
+end C03
+
+/-- C03 (helper): readable form of the generated `u_to_euler`. -/
+theorem u_to_euler_eq (U : Matrix (Fin 3) (Fin 3) ℝ) : Tools.u_to_euler U =
+    if |Real.arccos (U 2 2)| < 1e-8 then
+      (Tools._arctan2 (-(U 0 1)) (U 0 0)).map fun t => ![wrap t, Real.arccos (U 2 2), 0]
+    else if |Real.arccos (U 2 2) - Real.pi| < 1e-8 then
+      (Tools._arctan2 (U 0 1) (U 0 0)).map fun t => ![wrap t, Real.arccos (U 2 2), 0]
+    else
+      (Tools._arctan2 (U 0 2) (-(U 1 2))).bind fun t1 =>
+        (Tools._arctan2 (U 2 0) (U 2 1)).map fun t2 => ![wrap t1, Real.arccos (U 2 2), wrap t2] := by
+  unfold Tools.u_to_euler wrap
+  simp only []
+  split_ifs
+  · cases Tools._arctan2 (-(U 0 1)) (U 0 0) with
+    | none => rfl
+    | some t => simp only [Option.map_some]; split_ifs <;> rfl
+  · cases Tools._arctan2 (U 0 1) (U 0 0) with
+    | none => rfl
+    | some t => simp only [Option.map_some]; split_ifs <;> rfl
+  · cases Tools._arctan2 (U 0 2) (-(U 1 2)) with
+    | none => rfl
+    | some t =>
+      cases Tools._arctan2 (U 2 0) (U 2 1) with
+      | none => rfl
+      | some t2 => simp only [Option.map_some, Option.bind_some]; split_ifs <;> rfl
+
+
+/-! ### 7. `rod_to_u ∘ u_to_rod = id` on proper rotations -/
+
+namespace C03
+
+/-- the 21 scalar relations satisfied by the entries of a proper rotation:
+column orthonormality, row orthonormality, and `U = cof U`. -/
+structure RotRel (U : Matrix (Fin 3) (Fin 3) ℝ) : Prop where
+  c00 : U 0 0 * U 0 0 + U 1 0 * U 1 0 + U 2 0 * U 2 0 = 1
+  c11 : U 0 1 * U 0 1 + U 1 1 * U 1 1 + U 2 1 * U 2 1 = 1
+  c22 : U 0 2 * U 0 2 + U 1 2 * U 1 2 + U 2 2 * U 2 2 = 1
+  c01 : U 0 0 * U 0 1 + U 1 0 * U 1 1 + U 2 0 * U 2 1 = 0
+  c02 : U 0 0 * U 0 2 + U 1 0 * U 1 2 + U 2 0 * U 2 2 = 0
+  c12 : U 0 1 * U 0 2 + U 1 1 * U 1 2 + U 2 1 * U 2 2 = 0
+  r00 : U 0 0 * U 0 0 + U 0 1 * U 0 1 + U 0 2 * U 0 2 = 1
+  r11 : U 1 0 * U 1 0 + U 1 1 * U 1 1 + U 1 2 * U 1 2 = 1
+  r22 : U 2 0 * U 2 0 + U 2 1 * U 2 1 + U 2 2 * U 2 2 = 1
+  r01 : U 0 0 * U 1 0 + U 0 1 * U 1 1 + U 0 2 * U 1 2 = 0
+  r02 : U 0 0 * U 2 0 + U 0 1 * U 2 1 + U 0 2 * U 2 2 = 0
+  r12 : U 1 0 * U 2 0 + U 1 1 * U 2 1 + U 1 2 * U 2 2 = 0
+  k00 : U 0 0 = U 1 1 * U 2 2 - U 1 2 * U 2 1
+  k01 : U 0 1 = U 1 2 * U 2 0 - U 1 0 * U 2 2
+  k02 : U 0 2 = U 1 0 * U 2 1 - U 1 1 * U 2 0
+  k10 : U 1 0 = U 0 2 * U 2 1 - U 0 1 * U 2 2
+  k11 : U 1 1 = U 0 0 * U 2 2 - U 0 2 * U 2 0
+  k12 : U 1 2 = U 0 1 * U 2 0 - U 0 0 * U 2 1
+  k20 : U 2 0 = U 0 1 * U 1 2 - U 0 2 * U 1 1
+  k21 : U 2 1 = U 0 2 * U 1 0 - U 0 0 * U 1 2
+  k22 : U 2 2 = U 0 0 * U 1 1 - U 0 1 * U 1 0
+
+lemma rotRel {U : Matrix (Fin 3) (Fin 3) ℝ} (h : IsRot U) : RotRel U := by
+  obtain ⟨h1, h2⟩ := h
+  have h3 : U * Uᵀ = 1 := mul_eq_one_comm.mp h1
+  have h4 : Uᵀ = U.adjugate := by
+    have := Matrix.inv_eq_left_inv h1
+    rw [Matrix.inv_def, h2] at this
+    simpa using this.symm
+  have c := fun i j => congrFun (congrFun h1 i) j
+  have r := fun i j => congrFun (congrFun h3 i) j
+  have k := fun i j => congrFun (congrFun h4 i) j
+  simp only [Matrix.mul_apply, Fin.sum_univ_three, Matrix.transpose_apply, Matrix.one_apply] at c r
+  simp only [Matrix.adjugate_fin_three, Matrix.transpose_apply, Matrix.of_apply] at k
+  constructor
+  · simpa using c 0 0
+  · simpa using c 1 1
+  · simpa using c 2 2
+  · simpa using c 0 1
+  · simpa using c 0 2
+  · simpa using c 1 2
+  · simpa using r 0 0
+  · simpa using r 1 1
+  · simpa using r 2 2
+  · simpa using r 0 1
+  · simpa using r 0 2
+  · simpa using r 1 2
+  · have := k 0 0; simp at this; linarith
+  · have := k 1 0; simp at this; linarith
+  · have := k 2 0; simp at this; linarith
+  · have := k 0 1; simp at this; linarith
+  · have := k 1 1; simp at this; linarith
+  · have := k 2 1; simp at this; linarith
+  · have := k 0 2; simp at this; linarith
+  · have := k 1 2; simp at this; linarith
+  · have := k 2 2; simp at this; linarith
+
+end C03
+
+/-- C03: `rod_to_u` inverts `u_to_rod` on every proper rotation on which `u_to_rod` does not raise. -/
+theorem rod_to_u_u_to_rod {U : Matrix (Fin 3) (Fin 3) ℝ} (hU : IsRot U) {r : Fin 3 → ℝ}
+    (h : Tools.u_to_rod U = some r) : Tools.rod_to_u r = U := by
+  have R := C03.rotRel hU
+  unfold Tools.u_to_rod at h
+  simp only [] at h
+  split_ifs at h with hg
+  simp only [Option.some.injEq] at h
+  subst h
+  set T := 1 + U 0 0 + U 1 1 + U 2 2 with hT
+  have hT0 : T ≠ 0 := by
+    intro h0; apply hg; rw [h0]; norm_num
+  -- key quadratic facts
+  have q : (U 1 2 - U 2 1)^2 + (U 2 0 - U 0 2)^2 + (U 0 1 - U 1 0)^2 = 4 * T - T^2 := by
+    simp only [hT]
+    linarith [R.c00, R.c11, R.c22, R.k00, R.k11, R.k22]
+  have q00 : (U 1 2 - U 2 1)^2 = T * (1 + U 0 0 - U 1 1 - U 2 2) := by
+    simp only [hT]
+    linarith [R.c00, R.c11, R.c22, R.k00, R.k11, R.k22, R.r00, R.r11, R.r22]
+  have q11 : (U 2 0 - U 0 2)^2 = T * (1 - U 0 0 + U 1 1 - U 2 2) := by
+    simp only [hT]
+    linarith [R.c00, R.c11, R.c22, R.k00, R.k11, R.k22, R.r00, R.r11, R.r22]
+  have q22 : (U 0 1 - U 1 0)^2 = T * (1 - U 0 0 - U 1 1 + U 2 2) := by
+    simp only [hT]
+    linarith [R.c00, R.c11, R.c22, R.k00, R.k11, R.k22, R.r00, R.r11, R.r22]
+  have q01 : (U 1 2 - U 2 1) * (U 2 0 - U 0 2) = T * (U 0 1 + U 1 0) := by
+    simp only [hT]
+    linarith [R.c01, R.r01, R.k01, R.k10]
+  have q02 : (U 1 2 - U 2 1) * (U 0 1 - U 1 0) = T * (U 0 2 + U 2 0) := by
+    simp only [hT]
+    linarith [R.c02, R.r02, R.k02, R.k20]
+  have q12 : (U 2 0 - U 0 2) * (U 0 1 - U 1 0) = T * (U 1 2 + U 2 1) := by
+    simp only [hT]
+    linarith [R.c12, R.r12, R.k12, R.k21]
+  have hD : T ^ 2 + (U 1 2 - U 2 1)^2 + (U 2 0 - U 0 2)^2 + (U 0 1 - U 1 0)^2 ≠ 0 := by
+    have : T ^ 2 + (U 1 2 - U 2 1)^2 + (U 2 0 - U 0 2)^2 + (U 0 1 - U 1 0)^2 = 4 * T := by linarith
+    rw [this]; exact mul_ne_zero (by norm_num) hT0
+  ext i j; fin_cases i <;> fin_cases j <;>
+    simp [Tools.rod_to_u, dotProduct, Fin.sum_univ_three] <;> field_simp
+  · linear_combination (-1 - U 0 0) * q + 2 * q00 + (2 * T) * hT
+  · linear_combination (-U 0 1) * q + 2 * q01
+  · linear_combination (-U 0 2) * q + 2 * q02
+  · linear_combination (-U 1 0) * q + 2 * q01
+  · linear_combination (-1 - U 1 1) * q + 2 * q11 + (2 * T) * hT
+  · linear_combination (-U 1 2) * q + 2 * q12
+  · linear_combination (-U 2 0) * q + 2 * q02
+  · linear_combination (-U 2 1) * q + 2 * q12
+  · linear_combination (-1 - U 2 2) * q + 2 * q22 + (2 * T) * hT
+
+/-- C03: for every proper rotation whose trace guard is not hit (`1e-16 ≤ |1 + tr U|`, i.e. rotation angle
+not within ~1e-8 rad of 180°) `u_to_rod` returns a (finite) vector that rebuilds `U` exactly. -/
+theorem rod_to_u_u_to_rod_exists {U : Matrix (Fin 3) (Fin 3) ℝ} (hU : IsRot U)
+    (hg : (1e-16 : ℝ) ≤ |1 + U 0 0 + U 1 1 + U 2 2|) :
+    ∃ r, Tools.u_to_rod U = some r ∧ Tools.rod_to_u r = U := by
+  have : ∃ r, Tools.u_to_rod U = some r := by
+    unfold Tools.u_to_rod
+    simp only []
+    rw [if_neg (not_lt.mpr hg)]
+    exact ⟨_, rfl⟩
+  obtain ⟨r, hr⟩ := this
+  exact ⟨r, hr, rod_to_u_u_to_rod hU hr⟩
+
+/-- C03 (laue): `rod_to_u` inverts `u_to_rod` on every proper rotation on which `u_to_rod` does not raise. -/
+theorem rod_to_u_u_to_rod_laue {U : Matrix (Fin 3) (Fin 3) ℝ} (hU : IsRot U) {r : Fin 3 → ℝ}
+    (h : Laue.u_to_rod U = some r) : Laue.rod_to_u r = U := by
+  rw [laue_rod_to_u]; rw [laue_u_to_rod] at h; exact rod_to_u_u_to_rod hU h
+
+/-- C03 (laue): existence form of the Rodrigues round trip. -/
+theorem rod_to_u_u_to_rod_exists_laue {U : Matrix (Fin 3) (Fin 3) ℝ} (hU : IsRot U)
+    (hg : (1e-16 : ℝ) ≤ |1 + U 0 0 + U 1 1 + U 2 2|) :
+    ∃ r, Laue.u_to_rod U = some r ∧ Laue.rod_to_u r = U := by
+  rw [laue_rod_to_u, laue_u_to_rod]; exact rod_to_u_u_to_rod_exists hU hg
+
+example : ∃ r, Tools.u_to_rod (Rz 1) = some r ∧ Tools.rod_to_u r = Rz 1 := by
+  apply rod_to_u_u_to_rod_exists (Rz_isRot 1)
+  have h1 : 0 ≤ Real.cos 1 := Real.cos_nonneg_of_neg_pi_div_two_le_of_le (by linarith [Real.pi_pos]) (by linarith [Real.two_le_pi])
+  simp [Rz]
+  rw [abs_of_nonneg (by linarith)]
+  norm_num; linarith
+
+/-! ### 8b. Euler round trips -/
+
+namespace C03
+
+/-- `euler_to_u` as a function of the cosines and sines of its angles -/
+def eulerMat (c1 s1 K σ c2 s2 : ℝ) : Matrix (Fin 3) (Fin 3) ℝ :=
+  !![c1 * c2 - s1 * s2 * K, -c1 * s2 - s1 * c2 * K, s1 * σ;
+     s1 * c2 + c1 * s2 * K, -s1 * s2 + c1 * c2 * K, -c1 * σ;
+     s2 * σ, c2 * σ, K]
+
+lemma euler_to_u_eq_eulerMat (a b c : ℝ) : Tools.euler_to_u a b c =
+    eulerMat (Real.cos a) (Real.sin a) (Real.cos b) (Real.sin b) (Real.cos c) (Real.sin c) := by
+  ext i j; fin_cases i <;> fin_cases j <;> simp [Tools.euler_to_u, eulerMat]
+
+lemma cos_wrap (t : ℝ) : Real.cos (wrap t) = Real.cos t := by
+  unfold wrap; split_ifs <;> simp [Real.cos_add_two_pi]
+lemma sin_wrap (t : ℝ) : Real.sin (wrap t) = Real.sin t := by
+  unfold wrap; split_ifs <;> simp [Real.sin_add_two_pi]
+
+/-- entries of a proper rotation lie in `[-1, 1]`; here the one we need -/
+lemma RotRel.abs_22 {U : Matrix (Fin 3) (Fin 3) ℝ} (R : RotRel U) : -1 ≤ U 2 2 ∧ U 2 2 ≤ 1 := by
+  have := R.c22
+  constructor <;> nlinarith [mul_self_nonneg (U 0 2), mul_self_nonneg (U 1 2)]
+
+/-- exact algebraic reconstruction of a proper rotation from its third row and column -/
+lemma eulerMat_rebuild {U : Matrix (Fin 3) (Fin 3) ℝ} (R : RotRel U) {σ : ℝ} (hσ : σ ≠ 0)
+    (hσ2 : σ ^ 2 = 1 - U 2 2 ^ 2) :
+    eulerMat (-(U 1 2) / σ) (U 0 2 / σ) (U 2 2) σ (U 2 1 / σ) (U 2 0 / σ) = U := by
+  ext i j; fin_cases i <;> fin_cases j <;> simp [eulerMat] <;> field_simp
+  · linear_combination (-U 0 0) * hσ2 - R.k00 - U 2 2 * R.k11
+  · linear_combination (-U 0 1) * hσ2 - R.k01 + U 2 2 * R.k10
+  · linear_combination (-U 1 0) * hσ2 - R.k10 + U 2 2 * R.k01
+  · linear_combination (-U 1 1) * hσ2 - R.k11 - U 2 2 * R.k00
+
+
+/-- for a proper rotation: `Φ = arccos U₂₂` has `cos Φ = U₂₂`, `sin Φ ≥ 0`, `sin² Φ = 1 - U₂₂²` -/
+lemma RotRel.arccos_facts {U : Matrix (Fin 3) (Fin 3) ℝ} (R : RotRel U) :
+    Real.cos (Real.arccos (U 2 2)) = U 2 2 ∧ 0 ≤ Real.sin (Real.arccos (U 2 2)) ∧
+      Real.sin (Real.arccos (U 2 2)) ^ 2 = 1 - U 2 2 ^ 2 := by
+  obtain ⟨h1, h2⟩ := R.abs_22
+  have hc := Real.cos_arccos h1 h2
+  refine ⟨hc, Real.sin_nonneg_of_nonneg_of_le_pi (Real.arccos_nonneg _) (Real.arccos_le_pi _), ?_⟩
+  have := Real.sin_sq_add_cos_sq (Real.arccos (U 2 2))
+  rw [hc] at this
+  linarith
+
+end C03
+
+/-- C03: away from gimbal lock and when `_arctan2`'s relative zeroing does not fire, `u_to_euler` succeeds on every
+proper rotation and `euler_to_u` rebuilds the input exactly. -/
+theorem euler_roundtrip_generic {U : Matrix (Fin 3) (Fin 3) ℝ} (hU : IsRot U)
+    (h0 : ¬ |Real.arccos (U 2 2)| < 1e-8) (hπ : ¬ |Real.arccos (U 2 2) - Real.pi| < 1e-8)
+    (hz1x : ¬ |-(U 1 2)| < 1e-8 * max |-(U 1 2)| |U 0 2|)
+    (hz1y : ¬ |U 0 2| < 1e-8 * max |-(U 1 2)| |U 0 2|)
+    (hz2x : ¬ |U 2 1| < 1e-8 * max |U 2 1| |U 2 0|)
+    (hz2y : ¬ |U 2 0| < 1e-8 * max |U 2 1| |U 2 0|) :
+    ∃ e, Tools.u_to_euler U = some e ∧ Tools.euler_to_u (e 0) (e 1) (e 2) = U := by
+  have R := rotRel hU
+  obtain ⟨hcos, hsin0, hsin2⟩ := R.arccos_facts
+  set Φ := Real.arccos (U 2 2) with hΦ
+  have hΦ0 : 0 ≤ Φ := Real.arccos_nonneg _
+  have hΦπ : Φ ≤ Real.pi := Real.arccos_le_pi _
+  have hΦpos : 0 < Φ := by
+    rw [abs_of_nonneg hΦ0, not_lt] at h0
+    have : (0:ℝ) < 1e-8 := by norm_num
+    linarith
+  have hΦlt : Φ < Real.pi := by
+    rw [abs_of_nonpos (by linarith), not_lt] at hπ
+    have : (0:ℝ) < 1e-8 := by norm_num
+    linarith
+  have hσ : 0 < Real.sin Φ := Real.sin_pos_of_pos_of_lt_pi hΦpos hΦlt
+  set σ := Real.sin Φ with hσdef
+  have hρ1 : Real.sqrt ((-(U 1 2)) ^ 2 + U 0 2 ^ 2) = σ := by
+    have : (-(U 1 2)) ^ 2 + U 0 2 ^ 2 = σ ^ 2 := by rw [hsin2]; linarith [R.c22]
+    rw [this, Real.sqrt_sq hσ.le]
+  have hρ2 : Real.sqrt (U 2 1 ^ 2 + U 2 0 ^ 2) = σ := by
+    have : U 2 1 ^ 2 + U 2 0 ^ 2 = σ ^ 2 := by rw [hsin2]; linarith [R.r22]
+    rw [this, Real.sqrt_sq hσ.le]
+  have hne1 : -(U 1 2) ≠ 0 ∨ U 0 2 ≠ 0 := by
+    by_contra hcon
+    rw [not_or, not_not, not_not] at hcon
+    rw [hcon.1, hcon.2] at hρ1
+    simp at hρ1
+    linarith
+  have hne2 : U 2 1 ≠ 0 ∨ U 2 0 ≠ 0 := by
+    by_contra hcon
+    rw [not_or, not_not, not_not] at hcon
+    rw [hcon.1, hcon.2] at hρ2
+    simp at hρ2
+    linarith
+  obtain ⟨t1, ht1, -, -, hc1, hs1⟩ := arctan2_spec hne1
+  obtain ⟨t2, ht2, -, -, hc2, hs2⟩ := arctan2_spec hne2
+  simp only [zx, zy, if_neg hz1x, if_neg hz1y, hρ1] at hc1 hs1
+  simp only [zx, zy, if_neg hz2x, if_neg hz2y, hρ2] at hc2 hs2
+  refine ⟨![wrap t1, Φ, wrap t2], ?_, ?_⟩
+  · rw [u_to_euler_eq, if_neg h0, if_neg hπ, ht1, ht2]
+    rfl
+  · simp only [Matrix.cons_val_zero, Matrix.cons_val_one, Matrix.cons_val_two, Matrix.head_cons,
+      Matrix.tail_cons]
+    rw [euler_to_u_eq_eulerMat, cos_wrap, sin_wrap, cos_wrap, sin_wrap, hc1, hs1, hc2, hs2, hcos]
+    exact eulerMat_rebuild R hσ.ne' hsin2
+
+namespace C03
+
+lemma abs_le_sqrt_left (x y : ℝ) : |x| ≤ Real.sqrt (x ^ 2 + y ^ 2) := by
+  rw [← Real.sqrt_sq_eq_abs]; exact Real.sqrt_le_sqrt (by nlinarith [sq_nonneg y])
+lemma abs_le_sqrt_right (x y : ℝ) : |y| ≤ Real.sqrt (x ^ 2 + y ^ 2) := by
+  rw [← Real.sqrt_sq_eq_abs]; exact Real.sqrt_le_sqrt (by nlinarith [sq_nonneg x])
+lemma sqrt_le_abs_add (x y : ℝ) : Real.sqrt (x ^ 2 + y ^ 2) ≤ |x| + |y| := by
+  rw [show x ^ 2 + y ^ 2 = |x| ^ 2 + |y| ^ 2 by rw [sq_abs, sq_abs]]
+  apply Real.sqrt_le_iff.mpr
+  constructor
+  · positivity
+  · nlinarith [abs_nonneg x, abs_nonneg y]
+
+/-- if `|x| ≤ ε ρ` then the unit vector `(0, sign y)` is within `ε` of `(x, y)/ρ` (second component) -/
+lemma sign_approx {x y ε : ℝ} (hy : y ≠ 0) (hx : |x| ≤ ε * Real.sqrt (x ^ 2 + y ^ 2)) :
+    |y / |y| - y / Real.sqrt (x ^ 2 + y ^ 2)| ≤ ε := by
+  set ρ := Real.sqrt (x ^ 2 + y ^ 2) with hρ
+  have h1 := abs_le_sqrt_right x y
+  have h2 := sqrt_le_abs_add x y
+  have hy' : 0 < |y| := abs_pos.mpr hy
+  have hρ0 : 0 < ρ := lt_of_lt_of_le hy' h1
+  have key : |y / |y| - y / ρ| = (ρ - |y|) / ρ := by
+    rcases lt_or_gt_of_ne hy with h | h
+    · rw [abs_of_neg h] at *
+      have : y / -y - y / ρ = -((ρ - -y) / ρ) := by field_simp; ring
+      rw [this, abs_neg, abs_of_nonneg (div_nonneg (by linarith) hρ0.le)]
+    · rw [abs_of_pos h] at *
+      have : y / y - y / ρ = (ρ - y) / ρ := by field_simp
+      rw [this, abs_of_nonneg (div_nonneg (by linarith) hρ0.le)]
+  rw [key, div_le_iff₀ hρ0]
+  linarith
+
+
+end C03
+
+/-- C03: `_arctan2 y x` never fails away from the origin and returns the polar angle of `(x, y)` up to the `1e-8`
+relative zeroing: its cosine and sine are within `1e-8` of `x/ρ`, `y/ρ`. -/
+theorem arctan2_approx {y x : ℝ} (h : x ≠ 0 ∨ y ≠ 0) :
+    ∃ t, Tools._arctan2 y x = some t ∧
+      |Real.cos t - x / Real.sqrt (x ^ 2 + y ^ 2)| ≤ 1e-8 ∧
+      |Real.sin t - y / Real.sqrt (x ^ 2 + y ^ 2)| ≤ 1e-8 := by
+  obtain ⟨t, ht, -, -, hc, hs⟩ := arctan2_spec h
+  refine ⟨t, ht, ?_⟩
+  set ρ := Real.sqrt (x ^ 2 + y ^ 2) with hρ
+  have hxρ := abs_le_sqrt_left x y
+  have hyρ := abs_le_sqrt_right x y
+  have hρ0 : 0 < ρ := by
+    rcases h with h | h
+    · exact lt_of_lt_of_le (abs_pos.mpr h) hxρ
+    · exact lt_of_lt_of_le (abs_pos.mpr h) hyρ
+  have hmax : max |x| |y| ≤ ρ := max_le hxρ hyρ
+  have e8 : (0:ℝ) < 1e-8 := by norm_num
+  unfold zx zy at hc hs
+  by_cases h1 : |x| < 1e-8 * max |x| |y|
+  · have hx' : |x| ≤ 1e-8 * ρ := by nlinarith
+    have h2 : ¬ |y| < 1e-8 * max |x| |y| := by
+      intro h2
+      have := max_lt h1 h2
+      nlinarith [lt_of_lt_of_le hρ0 (le_trans (sqrt_le_abs_add x y) (by
+        have := le_max_left |x| |y|; have := le_max_right |x| |y|; linarith : |x| + |y| ≤ 2 * max |x| |y|))]
+    have hy : y ≠ 0 := by
+      rintro rfl
+      apply h2
+      have hx0 : x ≠ 0 := by rcases h with h | h; exact h; exact absurd rfl h
+      have : 0 < |x| := abs_pos.mpr hx0
+      have := le_max_left |x| |(0:ℝ)|
+      rw [abs_zero] at *
+      nlinarith
+    rw [if_pos h1, if_neg h2, sqrt_zero_sq_add] at hc hs
+    rw [hc, hs, zero_div, zero_sub, abs_neg, abs_div, abs_of_pos hρ0]
+    refine ⟨?_, sign_approx hy hx'⟩
+    rw [div_le_iff₀ hρ0]; exact hx'
+  · rw [if_neg h1] at hc hs
+    by_cases h2 : |y| < 1e-8 * max |x| |y|
+    · have hy' : |y| ≤ 1e-8 * ρ := by nlinarith
+      have hx : x ≠ 0 := by
+        rintro rfl
+        apply h1
+        have hy0 : y ≠ 0 := by rcases h with h | h; exact absurd rfl h; exact h
+        have : 0 < |y| := abs_pos.mpr hy0
+        have := le_max_right |(0:ℝ)| |y|
+        rw [abs_zero] at *
+        nlinarith
+      rw [if_pos h2, sqrt_sq_add_zero] at hc hs
+      rw [hc, hs, zero_div, zero_sub, abs_neg, abs_div, abs_of_pos hρ0]
+      refine ⟨?_, ?_⟩
+      · have := @sign_approx y x 1e-8 hx (by rw [add_comm]; exact hy')
+        rwa [add_comm] at this
+      · rw [div_le_iff₀ hρ0]; exact hy'
+    · rw [if_neg h2] at hc hs
+      refine ⟨?_, ?_⟩
+      · rw [hc, hρ, sub_self, abs_zero]; exact e8.le
+      · rw [hs, hρ, sub_self, abs_zero]; exact e8.le
+
+
+namespace C03
+
+lemma prod_bound {a b ε : ℝ} (ha : |a| ≤ 1) (hb : |b| ≤ ε) : |a * b| ≤ ε := by
+  rw [abs_mul]; nlinarith [abs_nonneg a, abs_nonneg b]
+
+lemma mul_approx {a A b B ε : ℝ} (ha : |a| ≤ 1) (hB : |B| ≤ 1) (h1 : |a - A| ≤ ε) (h2 : |b - B| ≤ ε) :
+    |a * b - A * B| ≤ 2 * ε := by
+  have : a * b - A * B = a * (b - B) + B * (a - A) := by ring
+  rw [this]
+  linarith [abs_add_le (a * (b - B)) (B * (a - A)), prod_bound ha h2, prod_bound hB h1]
+
+lemma mul_approx3 {a A b B K ε : ℝ} (ha : |a| ≤ 1) (hB : |B| ≤ 1) (hK : |K| ≤ 1) (h1 : |a - A| ≤ ε)
+    (h2 : |b - B| ≤ ε) : |a * b * K - A * B * K| ≤ 2 * ε := by
+  have : a * b * K - A * B * K = K * (a * b - A * B) := by ring
+  rw [this]
+  exact prod_bound hK (mul_approx ha hB h1 h2)
+
+/-- `eulerMat` is 4-Lipschitz (entrywise, sup norm) in the cos/sin of the first and third angle -/
+lemma eulerMat_lipschitz {c1 s1 c2 s2 C1 S1 C2 S2 K σ ε : ℝ}
+    (hc1 : |c1| ≤ 1) (hs1 : |s1| ≤ 1) (hc2 : |c2| ≤ 1) (hs2 : |s2| ≤ 1)
+    (hC1 : |C1| ≤ 1) (hS1 : |S1| ≤ 1) (hC2 : |C2| ≤ 1) (hS2 : |S2| ≤ 1)
+    (hK : |K| ≤ 1) (hσ : |σ| ≤ 1)
+    (d1 : |c1 - C1| ≤ ε) (d2 : |s1 - S1| ≤ ε) (d3 : |c2 - C2| ≤ ε) (d4 : |s2 - S2| ≤ ε) (i j : Fin 3) :
+    |eulerMat c1 s1 K σ c2 s2 i j - eulerMat C1 S1 K σ C2 S2 i j| ≤ 4 * ε := by
+  have hε : 0 ≤ ε := le_trans (abs_nonneg _) d1
+  fin_cases i <;> fin_cases j <;> simp [eulerMat]
+  · have := mul_approx hc1 hC2 d1 d3
+    have := mul_approx3 hs1 hS2 hK d2 d4
+    have := abs_sub (c1 * c2 - C1 * C2) (s1 * s2 * K - S1 * S2 * K)
+    rw [show c1 * c2 - s1 * s2 * K - (C1 * C2 - S1 * S2 * K)
+      = (c1 * c2 - C1 * C2) - (s1 * s2 * K - S1 * S2 * K) by ring]
+    linarith
+  · have := mul_approx hc1 hS2 d1 d4
+    have := mul_approx3 hs1 hC2 hK d2 d3
+    have := abs_add_le (c1 * s2 - C1 * S2) (s1 * c2 * K - S1 * C2 * K)
+    rw [show -(c1 * s2) - s1 * c2 * K - (-(C1 * S2) - S1 * C2 * K)
+      = -((c1 * s2 - C1 * S2) + (s1 * c2 * K - S1 * C2 * K)) by ring, abs_neg]
+    linarith
+  · rw [show s1 * σ - S1 * σ = σ * (s1 - S1) by ring]
+    linarith [prod_bound hσ d2]
+  · have := mul_approx hs1 hC2 d2 d3
+    have := mul_approx3 hc1 hS2 hK d1 d4
+    have := abs_add_le (s1 * c2 - S1 * C2) (c1 * s2 * K - C1 * S2 * K)
+    rw [show s1 * c2 + c1 * s2 * K - (S1 * C2 + C1 * S2 * K)
+      = (s1 * c2 - S1 * C2) + (c1 * s2 * K - C1 * S2 * K) by ring]
+    linarith
+  · have := mul_approx hs1 hS2 d2 d4
+    have := mul_approx3 hc1 hC2 hK d1 d3
+    have := abs_sub (c1 * c2 * K - C1 * C2 * K) (s1 * s2 - S1 * S2)
+    rw [show -(s1 * s2) + c1 * c2 * K - (-(S1 * S2) + C1 * C2 * K)
+      = (c1 * c2 * K - C1 * C2 * K) - (s1 * s2 - S1 * S2) by ring]
+    linarith
+  · rw [show -(c1 * σ) + C1 * σ = -(σ * (c1 - C1)) by ring, abs_neg]
+    linarith [prod_bound hσ d1]
+  · rw [show s2 * σ - S2 * σ = σ * (s2 - S2) by ring]
+    linarith [prod_bound hσ d4]
+  · rw [show c2 * σ - C2 * σ = σ * (c2 - C2) by ring]
+    linarith [prod_bound hσ d3]
+  · linarith
+
+
+lemma abs_div_sqrt_le_one_left (x y : ℝ) : |x / Real.sqrt (x ^ 2 + y ^ 2)| ≤ 1 := by
+  rw [abs_div, abs_of_nonneg (Real.sqrt_nonneg _)]
+  apply div_le_one_of_le₀ _ (Real.sqrt_nonneg _)
+  rw [← Real.sqrt_sq_eq_abs]; exact Real.sqrt_le_sqrt (by nlinarith [sq_nonneg y])
+lemma abs_div_sqrt_le_one_right (x y : ℝ) : |y / Real.sqrt (x ^ 2 + y ^ 2)| ≤ 1 := by
+  rw [add_comm]; exact abs_div_sqrt_le_one_left y x
+
+/-- entrywise error of the gimbal-lock branch (`κ = 1`: `Φ ≈ 0`, `κ = -1`: `Φ ≈ π`) -/
+lemma lock_bound {U : Matrix (Fin 3) (Fin 3) ℝ} (R : RotRel U) {κ σ y c1 s1 : ℝ}
+    (hκ : κ ^ 2 = 1) (hy : y = -κ * U 0 1) (hK : |U 2 2 - κ| ≤ 1e-16)
+    (hσ0 : 0 ≤ σ) (hσ1 : σ ≤ 1e-8) (hσ2 : σ ^ 2 = 1 - U 2 2 ^ 2)
+    (hc : |c1| ≤ 1) (hs : |s1| ≤ 1)
+    (d1 : |c1 - U 0 0 / Real.sqrt (U 0 0 ^ 2 + y ^ 2)| ≤ 1e-8)
+    (d2 : |s1 - y / Real.sqrt (U 0 0 ^ 2 + y ^ 2)| ≤ 1e-8) (i j : Fin 3) :
+    |eulerMat c1 s1 (U 2 2) σ 1 0 i j - U i j| ≤ 1e-6 := by
+  have hσsq : σ ^ 2 ≤ 1e-16 := by
+    have := pow_le_pow_left₀ hσ0 hσ1 2
+    norm_num at this ⊢; linarith only [this]
+  have hK1 : |U 2 2| ≤ 1 := abs_le.mpr R.abs_22
+  -- small entries
+  have s02 : U 0 2 ^ 2 ≤ σ ^ 2 := by linarith only [hσ2, R.c22, sq_nonneg (U 1 2)]
+  have b02 : |U 0 2| ≤ σ := abs_le_of_sq_le_sq s02 hσ0
+  have b12 : |U 1 2| ≤ σ :=
+    abs_le_of_sq_le_sq (by linarith only [hσ2, R.c22, sq_nonneg (U 0 2)]) hσ0
+  have b20 : |U 2 0| ≤ σ :=
+    abs_le_of_sq_le_sq (by linarith only [hσ2, R.r22, sq_nonneg (U 2 1)]) hσ0
+  have b21 : |U 2 1| ≤ σ :=
+    abs_le_of_sq_le_sq (by linarith only [hσ2, R.r22, sq_nonneg (U 2 0)]) hσ0
+  -- ρ close to 1
+  set ρ := Real.sqrt (U 0 0 ^ 2 + y ^ 2) with hρ
+  have hy2 : y ^ 2 = U 0 1 ^ 2 := by rw [hy]; linear_combination (U 0 1 ^ 2) * hκ
+  have hρ2 : ρ ^ 2 = 1 - U 0 2 ^ 2 := by
+    rw [hρ, Real.sq_sqrt (by positivity), hy2]; linarith only [R.r00]
+  have hρ0 : 0 ≤ ρ := Real.sqrt_nonneg _
+  have hU02sq : U 0 2 ^ 2 ≤ 1e-16 := le_trans s02 hσsq
+  have hρ1 : ρ ≤ 1 :=
+    (abs_le_of_sq_le_sq' (by linarith only [hρ2, sq_nonneg (U 0 2)] : ρ ^ 2 ≤ 1 ^ 2) zero_le_one).2
+  have hρlow : 1 - ρ ≤ 1e-16 := by
+    have := mul_nonneg hρ0 (sub_nonneg.2 hρ1)
+    linarith only [this, hρ2, hU02sq]
+  have hρabs : |1 - ρ| ≤ 1e-16 := by rw [abs_of_nonneg (by linarith)]; exact hρlow
+  have e1 : |U 0 0 / ρ - U 0 0| ≤ 1e-16 := by
+    have : U 0 0 / ρ - U 0 0 = (U 0 0 / ρ) * (1 - ρ) := by
+      have : ρ ≠ 0 := by intro h; rw [h] at hρlow; norm_num at hρlow
+      field_simp
+    rw [this]; exact prod_bound (abs_div_sqrt_le_one_left _ _) hρabs
+  have e2 : |y / ρ - y| ≤ 1e-16 := by
+    have : y / ρ - y = (y / ρ) * (1 - ρ) := by
+      have : ρ ≠ 0 := by intro h; rw [h] at hρlow; norm_num at hρlow
+      field_simp
+    rw [this]; exact prod_bound (abs_div_sqrt_le_one_right _ _) hρabs
+  have a1 : |c1 - U 0 0| ≤ 2e-8 := by
+    have := abs_add_le (c1 - U 0 0 / ρ) (U 0 0 / ρ - U 0 0)
+    rw [show c1 - U 0 0 / ρ + (U 0 0 / ρ - U 0 0) = c1 - U 0 0 by ring] at this
+    linarith
+  have a2 : |s1 - y| ≤ 2e-8 := by
+    have := abs_add_le (s1 - y / ρ) (y / ρ - y)
+    rw [show s1 - y / ρ + (y / ρ - y) = s1 - y by ring] at this
+    linarith
+  have hU01 : |U 0 1| ≤ 1 := by
+    apply abs_le_of_sq_le_sq _ zero_le_one
+    linarith only [R.r00, sq_nonneg (U 0 0), sq_nonneg (U 0 2)]
+  have hσle1 : |σ| ≤ 1 := by rw [abs_of_nonneg hσ0]; linarith
+  -- product terms
+  have p1 := prod_bound hK1 a2      -- |U 2 2 * (s1 - y)| ≤ 2e-8
+  have p2 := prod_bound hU01 hK     -- |U01 * (U 2 2 - κ)| ≤ 1e-16
+  have p3 := prod_bound hK1 a1      -- |U 2 2 * (c1 - U00)|
+  have p4 : |U 0 2 * U 2 1| ≤ 1e-8 := by
+    have h1 : |U 0 2| ≤ 1 := by linarith
+    exact prod_bound h1 (by linarith)
+  have p5 : |U 0 2 * U 2 0| ≤ 1e-8 := by
+    have h1 : |U 0 2| ≤ 1 := by linarith
+    exact prod_bound h1 (by linarith)
+  have p6 := prod_bound hs hσle1 |>.trans (le_refl _)
+  have p7 : |s1 * σ| ≤ 1e-8 := by
+    have : |σ| ≤ 1e-8 := by rw [abs_of_nonneg hσ0]; exact hσ1
+    exact prod_bound hs this
+  have p8 : |c1 * σ| ≤ 1e-8 := by
+    have : |σ| ≤ 1e-8 := by rw [abs_of_nonneg hσ0]; exact hσ1
+    exact prod_bound hc this
+  have hκK : U 2 2 * κ - 1 = κ * (U 2 2 - κ) := by linear_combination hκ
+  have hκabs : |κ| ≤ 1 := by
+    apply abs_le_of_sq_le_sq _ zero_le_one
+    rw [hκ]; norm_num
+  have p9 := prod_bound hκabs p2   -- |κ * (U01 * (K - κ))| ≤ 1e-16
+  obtain ⟨a1l, a1u⟩ := abs_le.mp a1
+  obtain ⟨a2l, a2u⟩ := abs_le.mp a2
+  obtain ⟨p1l, p1u⟩ := abs_le.mp p1
+  obtain ⟨p2l, p2u⟩ := abs_le.mp p2
+  obtain ⟨p3l, p3u⟩ := abs_le.mp p3
+  obtain ⟨p4l, p4u⟩ := abs_le.mp p4
+  obtain ⟨p5l, p5u⟩ := abs_le.mp p5
+  obtain ⟨p7l, p7u⟩ := abs_le.mp p7
+  obtain ⟨p8l, p8u⟩ := abs_le.mp p8
+  obtain ⟨p9l, p9u⟩ := abs_le.mp p9
+  obtain ⟨b02l, b02u⟩ := abs_le.mp b02
+  obtain ⟨b12l, b12u⟩ := abs_le.mp b12
+  obtain ⟨b20l, b20u⟩ := abs_le.mp b20
+  obtain ⟨b21l, b21u⟩ := abs_le.mp b21
+  have i01 : -(s1 * U 2 2) - U 0 1 = -(U 2 2 * (s1 - y)) + κ * (U 0 1 * (U 2 2 - κ)) := by
+    rw [hy]; linear_combination (U 0 1) * hκ
+  have i10 : s1 - U 1 0 = (s1 - y) + U 0 1 * (U 2 2 - κ) - U 0 2 * U 2 1 := by
+    rw [hy]; linear_combination (-1 : ℝ) * R.k10
+  have i11 : c1 * U 2 2 - U 1 1 = U 2 2 * (c1 - U 0 0) + U 0 2 * U 2 0 := by
+    linear_combination (-1 : ℝ) * R.k11
+  fin_cases i <;> fin_cases j <;> simp [eulerMat]
+  · rw [abs_le]; constructor <;> linarith only [a1l, a1u]
+  · rw [i01, abs_le]; constructor <;> linarith only [p1l, p1u, p9l, p9u]
+  · rw [abs_le]; constructor <;> linarith only [p7l, p7u, b02l, b02u, hσ1]
+  · rw [i10, abs_le]; constructor <;> linarith only [a2l, a2u, p2l, p2u, p4l, p4u]
+  · rw [i11, abs_le]; constructor <;> linarith only [p3l, p3u, p5l, p5u]
+  · rw [abs_le]; constructor <;> linarith only [p8l, p8u, b12l, b12u, hσ1]
+  · rw [abs_le]; constructor <;> linarith only [b20l, b20u, hσ1]
+  · rw [abs_le]; constructor <;> linarith only [b21l, b21u, hσ1, hσ0]
+  · norm_num
+
+end C03
+
+namespace C03
+
+lemma near_one {K σ : ℝ} (hK0 : 0 ≤ K) (h2 : σ ^ 2 = 1 - K ^ 2) (hσ : σ ^ 2 ≤ 1e-16) :
+    |K - 1| ≤ 1e-16 := by
+  have hK1 : K ≤ 1 :=
+    (abs_le_of_sq_le_sq' (by linarith only [h2, sq_nonneg σ] : K ^ 2 ≤ 1 ^ 2) zero_le_one).2
+  have := mul_nonneg hK0 (sub_nonneg.2 hK1)
+  rw [abs_of_nonpos (by linarith only [hK1])]
+  linarith only [this, h2, hσ]
+
+lemma near_neg_one {K σ : ℝ} (hK0 : K ≤ 0) (h2 : σ ^ 2 = 1 - K ^ 2) (hσ : σ ^ 2 ≤ 1e-16) :
+    |K - -1| ≤ 1e-16 := by
+  have := @near_one (-K) σ (by linarith only [hK0]) (by rw [h2]; ring) hσ
+  rw [show K - -1 = -(-K - 1) by ring, abs_neg]; exact this
+
+end C03
+
+/-- C03: away from the two gimbal-lock branches `u_to_euler` succeeds on every proper rotation and `euler_to_u`
+rebuilds the input to within `4e-8` entrywise (the `1e-8` relative zeroing in `_arctan2` is the only error). -/
+theorem euler_roundtrip_generic_approx {U : Matrix (Fin 3) (Fin 3) ℝ} (hU : IsRot U)
+    (h0 : ¬ |Real.arccos (U 2 2)| < 1e-8) (hπ : ¬ |Real.arccos (U 2 2) - Real.pi| < 1e-8) :
+    ∃ e, Tools.u_to_euler U = some e ∧
+      ∀ i j, |Tools.euler_to_u (e 0) (e 1) (e 2) i j - U i j| ≤ 4e-8 := by
+  have R := rotRel hU
+  obtain ⟨hcos, hsin0, hsin2⟩ := R.arccos_facts
+  set Φ := Real.arccos (U 2 2) with hΦ
+  have hΦ0 : 0 ≤ Φ := Real.arccos_nonneg _
+  have hΦπ : Φ ≤ Real.pi := Real.arccos_le_pi _
+  have hΦpos : 0 < Φ := by
+    rw [abs_of_nonneg hΦ0, not_lt] at h0
+    have : (0:ℝ) < 1e-8 := by norm_num
+    linarith
+  have hΦlt : Φ < Real.pi := by
+    rw [abs_of_nonpos (by linarith), not_lt] at hπ
+    have : (0:ℝ) < 1e-8 := by norm_num
+    linarith
+  have hσ : 0 < Real.sin Φ := Real.sin_pos_of_pos_of_lt_pi hΦpos hΦlt
+  set σ := Real.sin Φ with hσdef
+  have hρ1 : Real.sqrt ((-(U 1 2)) ^ 2 + U 0 2 ^ 2) = σ := by
+    have : (-(U 1 2)) ^ 2 + U 0 2 ^ 2 = σ ^ 2 := by rw [hsin2]; linarith [R.c22]
+    rw [this, Real.sqrt_sq hσ.le]
+  have hρ2 : Real.sqrt (U 2 1 ^ 2 + U 2 0 ^ 2) = σ := by
+    have : U 2 1 ^ 2 + U 2 0 ^ 2 = σ ^ 2 := by rw [hsin2]; linarith [R.r22]
+    rw [this, Real.sqrt_sq hσ.le]
+  have hne1 : -(U 1 2) ≠ 0 ∨ U 0 2 ≠ 0 := by
+    by_contra hcon
+    rw [not_or, not_not, not_not] at hcon
+    rw [hcon.1, hcon.2] at hρ1
+    simp at hρ1
+    linarith
+  have hne2 : U 2 1 ≠ 0 ∨ U 2 0 ≠ 0 := by
+    by_contra hcon
+    rw [not_or, not_not, not_not] at hcon
+    rw [hcon.1, hcon.2] at hρ2
+    simp at hρ2
+    linarith
+  obtain ⟨t1, ht1, hc1, hs1⟩ := arctan2_approx hne1
+  obtain ⟨t2, ht2, hc2, hs2⟩ := arctan2_approx hne2
+  have B1 := abs_div_sqrt_le_one_left (-(U 1 2)) (U 0 2)
+  have B2 := abs_div_sqrt_le_one_right (-(U 1 2)) (U 0 2)
+  have B3 := abs_div_sqrt_le_one_left (U 2 1) (U 2 0)
+  have B4 := abs_div_sqrt_le_one_right (U 2 1) (U 2 0)
+  rw [hρ1] at hc1 hs1 B1 B2
+  rw [hρ2] at hc2 hs2 B3 B4
+  refine ⟨![wrap t1, Φ, wrap t2], ?_, ?_⟩
+  · rw [u_to_euler_eq, if_neg h0, if_neg hπ, ht1, ht2]
+    rfl
+  · intro i j
+    simp only [Matrix.cons_val_zero, Matrix.cons_val_one, Matrix.cons_val_two, Matrix.head_cons,
+      Matrix.tail_cons]
+    rw [euler_to_u_eq_eulerMat, cos_wrap, sin_wrap, cos_wrap, sin_wrap, hcos]
+    have hreb := eulerMat_rebuild R hσ.ne' hsin2
+    have := eulerMat_lipschitz (Real.abs_cos_le_one t1) (Real.abs_sin_le_one t1)
+      (Real.abs_cos_le_one t2) (Real.abs_sin_le_one t2) B1 B2 B3 B4 (abs_le.mpr R.abs_22)
+      (abs_le.mpr ⟨by linarith [Real.neg_one_le_sin Φ], Real.sin_le_one Φ⟩) hc1 hs1 hc2 hs2 i j
+    rw [hreb] at this
+    norm_num at this ⊢
+    linarith
+
+namespace C03
+
+/-- shared core of the two gimbal-lock branches -/
+lemma lock_core {U : Matrix (Fin 3) (Fin 3) ℝ} (R : RotRel U) {κ y : ℝ}
+    (hκ : κ ^ 2 = 1) (hy : y = -κ * U 0 1) (hK : |U 2 2 - κ| ≤ 1e-16)
+    (hσ1 : Real.sin (Real.arccos (U 2 2)) ≤ 1e-8) :
+    ∃ t, Tools._arctan2 y (U 0 0) = some t ∧
+      ∀ i j, |Tools.euler_to_u (wrap t) (Real.arccos (U 2 2)) 0 i j - U i j| ≤ 1e-6 := by
+  obtain ⟨hcos, hsin0, hsin2⟩ := R.arccos_facts
+  have hσsq : Real.sin (Real.arccos (U 2 2)) ^ 2 ≤ 1e-16 := by
+    have := pow_le_pow_left₀ hsin0 hσ1 2
+    norm_num at this ⊢; linarith only [this]
+  have hy2 : y ^ 2 = U 0 1 ^ 2 := by rw [hy]; linear_combination (U 0 1 ^ 2) * hκ
+  have hne : U 0 0 ≠ 0 ∨ y ≠ 0 := by
+    by_contra hcon
+    rw [not_or, not_not, not_not] at hcon
+    have h1 : U 0 1 ^ 2 = 0 := by rw [← hy2, hcon.2]; ring
+    have h2 : U 0 2 ^ 2 ≤ Real.sin (Real.arccos (U 2 2)) ^ 2 := by
+      linarith only [hsin2, R.c22, sq_nonneg (U 1 2)]
+    have := R.r00
+    rw [hcon.1] at this
+    norm_num at hσsq
+    nlinarith
+  obtain ⟨t, ht, hc, hs⟩ := arctan2_approx hne
+  refine ⟨t, ht, fun i j => ?_⟩
+  rw [euler_to_u_eq_eulerMat, cos_wrap, sin_wrap, hcos, Real.cos_zero, Real.sin_zero]
+  exact lock_bound R hκ hy hK hsin0 hσ1 hsin2 (Real.abs_cos_le_one t) (Real.abs_sin_le_one t) hc hs i j
+
+end C03
+
+/-- C03: at and arbitrarily near the `Φ = 0` gimbal lock (`arccos U₂₂ < 1e-8`) `u_to_euler` succeeds on every proper
+rotation and `euler_to_u` rebuilds the input to within `1e-6` entrywise. -/
+theorem euler_roundtrip_lock0 {U : Matrix (Fin 3) (Fin 3) ℝ} (hU : IsRot U)
+    (h0 : |Real.arccos (U 2 2)| < 1e-8) :
+    ∃ e, Tools.u_to_euler U = some e ∧
+      ∀ i j, |Tools.euler_to_u (e 0) (e 1) (e 2) i j - U i j| ≤ 1e-6 := by
+  have R := rotRel hU
+  obtain ⟨hcos, hsin0, hsin2⟩ := R.arccos_facts
+  have hΦ0 : 0 ≤ Real.arccos (U 2 2) := Real.arccos_nonneg _
+  rw [abs_of_nonneg hΦ0] at h0
+  have hσ1 : Real.sin (Real.arccos (U 2 2)) ≤ 1e-8 := le_trans (Real.sin_le hΦ0) h0.le
+  have hσsq : Real.sin (Real.arccos (U 2 2)) ^ 2 ≤ 1e-16 := by
+    have := pow_le_pow_left₀ hsin0 hσ1 2
+    norm_num at this ⊢; linarith only [this]
+  have hK0 : 0 ≤ U 2 2 := by
+    rw [← hcos]
+    apply Real.cos_nonneg_of_neg_pi_div_two_le_of_le
+    · linarith [Real.pi_pos]
+    · have := Real.two_le_pi
+      norm_num at h0
+      linarith
+  have hK := near_one hK0 hsin2 hσsq
+  obtain ⟨t, ht, hb⟩ := lock_core R (κ := 1) (y := -(U 0 1)) (by norm_num) (by ring) hK hσ1
+  refine ⟨![wrap t, Real.arccos (U 2 2), 0], ?_, ?_⟩
+  · rw [u_to_euler_eq, if_pos (by rw [abs_of_nonneg hΦ0]; exact h0), ht]
+    rfl
+  · intro i j
+    simp only [Matrix.cons_val_zero, Matrix.cons_val_one, Matrix.cons_val_two, Matrix.head_cons,
+      Matrix.tail_cons]
+    exact hb i j
+
+/-- C03: at and arbitrarily near the `Φ = π` gimbal lock (`|arccos U₂₂ - π| < 1e-8`) `u_to_euler` succeeds on every
+proper rotation and `euler_to_u` rebuilds the input to within `1e-6` entrywise. -/
+theorem euler_roundtrip_lockpi {U : Matrix (Fin 3) (Fin 3) ℝ} (hU : IsRot U)
+    (hπ : |Real.arccos (U 2 2) - Real.pi| < 1e-8) :
+    ∃ e, Tools.u_to_euler U = some e ∧
+      ∀ i j, |Tools.euler_to_u (e 0) (e 1) (e 2) i j - U i j| ≤ 1e-6 := by
+  have R := rotRel hU
+  obtain ⟨hcos, hsin0, hsin2⟩ := R.arccos_facts
+  have hΦ0 : 0 ≤ Real.arccos (U 2 2) := Real.arccos_nonneg _
+  have hΦπ : Real.arccos (U 2 2) ≤ Real.pi := Real.arccos_le_pi _
+  have hπ' := hπ
+  rw [abs_of_nonpos (by linarith)] at hπ'
+  have two := Real.two_le_pi
+  have h0 : ¬ |Real.arccos (U 2 2)| < 1e-8 := by
+    rw [abs_of_nonneg hΦ0, not_lt]
+    norm_num at hπ' ⊢
+    linarith
+  have hσ1 : Real.sin (Real.arccos (U 2 2)) ≤ 1e-8 := by
+    rw [← Real.sin_pi_sub]
+    exact le_trans (Real.sin_le (by linarith)) (by linarith)
+  have hσsq : Real.sin (Real.arccos (U 2 2)) ^ 2 ≤ 1e-16 := by
+    have := pow_le_pow_left₀ hsin0 hσ1 2
+    norm_num at this ⊢; linarith only [this]
+  have hK0 : U 2 2 ≤ 0 := by
+    rw [← hcos]
+    apply Real.cos_nonpos_of_pi_div_two_le_of_le
+    · norm_num at hπ'
+      linarith
+    · linarith
+  have hK := near_neg_one hK0 hsin2 hσsq
+  obtain ⟨t, ht, hb⟩ := lock_core R (κ := -1) (y := U 0 1) (by norm_num) (by ring) hK hσ1
+  refine ⟨![wrap t, Real.arccos (U 2 2), 0], ?_, ?_⟩
+  · rw [u_to_euler_eq, if_neg h0, if_pos hπ, ht]
+    rfl
+  · intro i j
+    simp only [Matrix.cons_val_zero, Matrix.cons_val_one, Matrix.cons_val_two, Matrix.head_cons,
+      Matrix.tail_cons]
+    exact hb i j
+
+/-- C03: `u_to_euler` inverts `euler_to_u` on EVERY proper rotation (generic, at, and arbitrarily near gimbal lock):
+it never raises and the returned angles rebuild the input matrix to within `1e-6` entrywise. -/
+theorem u_to_euler_roundtrip {U : Matrix (Fin 3) (Fin 3) ℝ} (hU : IsRot U) :
+    ∃ e, Tools.u_to_euler U = some e ∧
+      ∀ i j, |Tools.euler_to_u (e 0) (e 1) (e 2) i j - U i j| ≤ 1e-6 := by
+  by_cases h0 : |Real.arccos (U 2 2)| < 1e-8
+  · exact euler_roundtrip_lock0 hU h0
+  · by_cases hπ : |Real.arccos (U 2 2) - Real.pi| < 1e-8
+    · exact euler_roundtrip_lockpi hU hπ
+    · obtain ⟨e, he, hb⟩ := euler_roundtrip_generic_approx hU h0 hπ
+      refine ⟨e, he, fun i j => le_trans (hb i j) (by norm_num)⟩
+
+namespace C03
+
+/-- two angles in `[0, 2π)` with equal cosine and sine are equal -/
+lemma angle_unique {a b : ℝ} (ha0 : 0 ≤ a) (ha1 : a < 2 * Real.pi) (hb0 : 0 ≤ b) (hb1 : b < 2 * Real.pi)
+    (hc : Real.cos a = Real.cos b) (hs : Real.sin a = Real.sin b) : a = b := by
+  have h : Real.cos (a - b) = 1 := by
+    rw [Real.cos_sub, hc, hs]; nlinarith [Real.sin_sq_add_cos_sq b]
+  have := (Real.cos_eq_one_iff_of_lt_of_lt (by linarith) (by linarith)).mp h
+  linarith
+
+lemma wrap_mem {t : ℝ} (h1 : -Real.pi < t) (h2 : t ≤ Real.pi) : 0 ≤ wrap t ∧ wrap t < 2 * Real.pi := by
+  have hp := Real.pi_pos
+  unfold wrap; split_ifs with h
+  · constructor <;> linarith
+  · constructor <;> linarith
+
+/-- scaling both arguments of the zeroing test by a positive factor does not change it -/
+lemma zero_test_scale {c s σ : ℝ} (hσ : 0 < σ) :
+    (|c * σ| < 1e-8 * max |c * σ| |s * σ|) ↔ (|c| < 1e-8 * max |c| |s|) := by
+  rw [abs_mul, abs_mul, abs_of_pos hσ, ← max_mul_of_nonneg _ _ hσ.le, ← mul_assoc]
+  exact mul_lt_mul_iff_of_pos_right hσ
+
+end C03
+
+/-- C03: exact recovery of the Euler angles: for `φ1, φ2 ∈ [0, 2π)`, `Φ ∈ [1e-8, π - 1e-8]` (away from gimbal lock) and
+`φ1, φ2` outside the `1e-8` relative zeroing zones of `_arctan2`, `u_to_euler (euler_to_u φ1 Φ φ2)` returns exactly
+`[φ1, Φ, φ2]`. -/
+theorem u_to_euler_euler_to_u_exact {φ1 Φ φ2 : ℝ}
+    (h1 : 0 ≤ φ1 ∧ φ1 < 2 * Real.pi) (hΦ : 1e-8 ≤ Φ ∧ Φ ≤ Real.pi - 1e-8)
+    (h2 : 0 ≤ φ2 ∧ φ2 < 2 * Real.pi)
+    (hz1c : ¬ |Real.cos φ1| < 1e-8 * max |Real.cos φ1| |Real.sin φ1|)
+    (hz1s : ¬ |Real.sin φ1| < 1e-8 * max |Real.cos φ1| |Real.sin φ1|)
+    (hz2c : ¬ |Real.cos φ2| < 1e-8 * max |Real.cos φ2| |Real.sin φ2|)
+    (hz2s : ¬ |Real.sin φ2| < 1e-8 * max |Real.cos φ2| |Real.sin φ2|) :
+    Tools.u_to_euler (Tools.euler_to_u φ1 Φ φ2) = some ![φ1, Φ, φ2] := by
+  have e8 : (0:ℝ) < 1e-8 := by norm_num
+  have hΦ0 : 0 < Φ := by linarith [hΦ.1]
+  have hΦπ : Φ < Real.pi := by linarith [hΦ.2]
+  have hσ : 0 < Real.sin Φ := Real.sin_pos_of_pos_of_lt_pi hΦ0 hΦπ
+  have hacos : Real.arccos (Real.cos Φ) = Φ := Real.arccos_cos hΦ0.le hΦπ.le
+  have u22 : Tools.euler_to_u φ1 Φ φ2 2 2 = Real.cos Φ := by simp [Tools.euler_to_u]
+  have u02 : Tools.euler_to_u φ1 Φ φ2 0 2 = Real.sin φ1 * Real.sin Φ := by simp [Tools.euler_to_u]
+  have u12 : -(Tools.euler_to_u φ1 Φ φ2 1 2) = Real.cos φ1 * Real.sin Φ := by
+    simp [Tools.euler_to_u]
+  have u20 : Tools.euler_to_u φ1 Φ φ2 2 0 = Real.sin φ2 * Real.sin Φ := by simp [Tools.euler_to_u]
+  have u21 : Tools.euler_to_u φ1 Φ φ2 2 1 = Real.cos φ2 * Real.sin Φ := by simp [Tools.euler_to_u]
+  have key : ∀ φ : ℝ, 0 ≤ φ → φ < 2 * Real.pi →
+      ¬ |Real.cos φ| < 1e-8 * max |Real.cos φ| |Real.sin φ| →
+      ¬ |Real.sin φ| < 1e-8 * max |Real.cos φ| |Real.sin φ| →
+      ∃ t, Tools._arctan2 (Real.sin φ * Real.sin Φ) (Real.cos φ * Real.sin Φ) = some t ∧ wrap t = φ := by
+    intro φ hφ0 hφ1 hzc hzs
+    have hρ : Real.sqrt ((Real.cos φ * Real.sin Φ) ^ 2 + (Real.sin φ * Real.sin Φ) ^ 2) = Real.sin Φ := by
+      have : (Real.cos φ * Real.sin Φ) ^ 2 + (Real.sin φ * Real.sin Φ) ^ 2 = Real.sin Φ ^ 2 := by
+        linear_combination (Real.sin Φ ^ 2) * Real.cos_sq_add_sin_sq φ
+      rw [this, Real.sqrt_sq hσ.le]
+    have hne : Real.cos φ * Real.sin Φ ≠ 0 ∨ Real.sin φ * Real.sin Φ ≠ 0 := by
+      by_contra hcon
+      rw [not_or, not_not, not_not] at hcon
+      rw [hcon.1, hcon.2] at hρ
+      simp at hρ
+      linarith
+    obtain ⟨t, ht, htl, htu, hc, hs⟩ := arctan2_spec hne
+    have hzx : ¬ |Real.cos φ * Real.sin Φ| < 1e-8 * max |Real.cos φ * Real.sin Φ| |Real.sin φ * Real.sin Φ| :=
+      fun h => hzc ((zero_test_scale hσ).mp h)
+    have hzy : ¬ |Real.sin φ * Real.sin Φ| < 1e-8 * max |Real.cos φ * Real.sin Φ| |Real.sin φ * Real.sin Φ| := by
+      intro h
+      rw [max_comm] at h
+      exact hzs (by rw [max_comm]; exact (zero_test_scale hσ).mp h)
+    simp only [zx, zy, if_neg hzx, if_neg hzy, hρ] at hc hs
+    rw [mul_div_assoc, div_self hσ.ne', mul_one] at hc hs
+    refine ⟨t, ht, ?_⟩
+    obtain ⟨w0, w1⟩ := wrap_mem htl htu
+    exact angle_unique w0 w1 hφ0 hφ1 (by rw [cos_wrap, hc]) (by rw [sin_wrap, hs])
+  obtain ⟨t1, ht1, hw1⟩ := key φ1 h1.1 h1.2 hz1c hz1s
+  obtain ⟨t2, ht2, hw2⟩ := key φ2 h2.1 h2.2 hz2c hz2s
+  have n0 : ¬ |Φ| < 1e-8 := by rw [abs_of_pos hΦ0, not_lt]; exact hΦ.1
+  have nπ : ¬ |Φ - Real.pi| < 1e-8 := by
+    rw [abs_of_neg (by linarith), not_lt]; linarith [hΦ.2]
+  rw [u_to_euler_eq, u22, u02, u12, u20, u21, hacos, if_neg n0, if_neg nπ, ht1, ht2]
+  simp only [Option.bind_some, Option.map_some, hw1, hw2]
+
+/-- C03: exactly at the `Φ = 0` gimbal lock (`U = Rz a`, any `a`) the round trip is exact whenever the relative
+zeroing of `_arctan2` does not fire (`a` not within ~1e-8 of a multiple of `π/2`). -/
+theorem euler_roundtrip_lock0_exact (a : ℝ)
+    (hzx : ¬ |Real.cos a| < 1e-8 * max |Real.cos a| |Real.sin a|)
+    (hzy : ¬ |Real.sin a| < 1e-8 * max |Real.cos a| |Real.sin a|) :
+    ∃ e, Tools.u_to_euler (Rz a) = some e ∧ Tools.euler_to_u (e 0) (e 1) (e 2) = Rz a := by
+  have h22 : Rz a 2 2 = 1 := by simp [Rz]
+  have h01 : -(Rz a 0 1) = Real.sin a := by simp [Rz]
+  have h00 : Rz a 0 0 = Real.cos a := by simp [Rz]
+  have hne : Real.cos a ≠ 0 ∨ Real.sin a ≠ 0 := by
+    by_contra hcon
+    rw [not_or, not_not, not_not] at hcon
+    have := Real.cos_sq_add_sin_sq a
+    rw [hcon.1, hcon.2] at this
+    norm_num at this
+  obtain ⟨t, ht, -, -, hc, hs⟩ := arctan2_spec hne
+  simp only [zx, zy, if_neg hzx, if_neg hzy, Real.cos_sq_add_sin_sq, Real.sqrt_one, div_one] at hc hs
+  refine ⟨![wrap t, 0, 0], ?_, ?_⟩
+  · rw [u_to_euler_eq, h22, h01, h00, Real.arccos_one, if_pos (by norm_num), ht]
+    rfl
+  · simp only [Matrix.cons_val_zero, Matrix.cons_val_one, Matrix.cons_val_two, Matrix.head_cons,
+      Matrix.tail_cons]
+    rw [euler_to_u_eq_eulerMat, cos_wrap, sin_wrap, hc, hs, Real.cos_zero, Real.sin_zero]
+    ext i j; fin_cases i <;> fin_cases j <;> simp [eulerMat, Rz]
+
+/-- C03: exactly at the `Φ = π` gimbal lock (`U = Rz a · Rx π`, any `a`) the round trip is exact whenever the relative
+zeroing of `_arctan2` does not fire. -/
+theorem euler_roundtrip_lockpi_exact (a : ℝ)
+    (hzx : ¬ |Real.cos a| < 1e-8 * max |Real.cos a| |Real.sin a|)
+    (hzy : ¬ |Real.sin a| < 1e-8 * max |Real.cos a| |Real.sin a|) :
+    ∃ e, Tools.u_to_euler (Rz a * Rx Real.pi) = some e ∧
+      Tools.euler_to_u (e 0) (e 1) (e 2) = Rz a * Rx Real.pi := by
+  have h22 : (Rz a * Rx Real.pi) 2 2 = -1 := by
+    simp [Rz, Rx, Matrix.mul_apply, Fin.sum_univ_three]
+  have h01 : (Rz a * Rx Real.pi) 0 1 = Real.sin a := by
+    simp [Rz, Rx, Matrix.mul_apply, Fin.sum_univ_three]
+  have h00 : (Rz a * Rx Real.pi) 0 0 = Real.cos a := by
+    simp [Rz, Rx, Matrix.mul_apply, Fin.sum_univ_three]
+  have hne : Real.cos a ≠ 0 ∨ Real.sin a ≠ 0 := by
+    by_contra hcon
+    rw [not_or, not_not, not_not] at hcon
+    have := Real.cos_sq_add_sin_sq a
+    rw [hcon.1, hcon.2] at this
+    norm_num at this
+  obtain ⟨t, ht, -, -, hc, hs⟩ := arctan2_spec hne
+  simp only [zx, zy, if_neg hzx, if_neg hzy, Real.cos_sq_add_sin_sq, Real.sqrt_one, div_one] at hc hs
+  have two := Real.two_le_pi
+  have n0 : ¬ |Real.pi| < 1e-8 := by
+    rw [abs_of_pos Real.pi_pos, not_lt]; norm_num; linarith
+  refine ⟨![wrap t, Real.pi, 0], ?_, ?_⟩
+  · rw [u_to_euler_eq, h22, h01, h00, Real.arccos_neg_one, if_neg n0, if_pos (by norm_num), ht]
+    rfl
+  · simp only [Matrix.cons_val_zero, Matrix.cons_val_one, Matrix.cons_val_two, Matrix.head_cons,
+      Matrix.tail_cons]
+    rw [euler_to_u_eq_eulerMat, cos_wrap, sin_wrap, hc, hs, Real.cos_zero, Real.sin_zero]
+    ext i j; fin_cases i <;> fin_cases j <;>
+      simp [eulerMat, Rz, Rx, Matrix.mul_apply, Fin.sum_univ_three]
+
+/-- C03 (finding): the round trip at gimbal lock is NOT exact in general, even in exact real arithmetic: inside the `1e-8`
+relative zeroing zone of `_arctan2` (here `a = arctan 2e8`, about `5e-9` below `π/2`) the angle is snapped to `π/2` and the
+rebuilt matrix differs from `Rz a` (by less than `1e-6`, see `u_to_euler_roundtrip`). -/
+theorem euler_roundtrip_lock0_not_exact :
+    ∃ a e, Tools.u_to_euler (Rz a) = some e ∧ Tools.euler_to_u (e 0) (e 1) (e 2) ≠ Rz a := by
+  set a := Real.arctan 2e8 with ha
+  have hcpos : 0 < Real.cos a := Real.cos_arctan_pos _
+  have hsin : Real.sin a = 2e8 * Real.cos a := by
+    have := Real.tan_arctan 2e8
+    rw [← ha, Real.tan_eq_sin_div_cos, div_eq_iff hcpos.ne'] at this
+    exact this
+  have hspos : 0 < Real.sin a := by rw [hsin]; positivity
+  have hzx : |Real.cos a| < 1e-8 * max |Real.cos a| |Real.sin a| := by
+    rw [abs_of_pos hcpos, abs_of_pos hspos]
+    have hm : Real.sin a ≤ max (Real.cos a) (Real.sin a) := le_max_right _ _
+    generalize max (Real.cos a) (Real.sin a) = m at hm ⊢
+    rw [hsin] at hm
+    norm_num at hm ⊢
+    linarith
+  have h22 : Rz a 2 2 = 1 := by simp [Rz]
+  have h01 : -(Rz a 0 1) = Real.sin a := by simp [Rz]
+  have h00 : Rz a 0 0 = Real.cos a := by simp [Rz]
+  obtain ⟨t, ht, -, -, hc, -⟩ := arctan2_spec (x := Real.cos a) (y := Real.sin a) (Or.inl hcpos.ne')
+  simp only [zx, if_pos hzx, zero_div] at hc
+  refine ⟨a, ![wrap t, 0, 0], ?_, ?_⟩
+  · rw [u_to_euler_eq, h22, h01, h00, Real.arccos_one, if_pos (by norm_num), ht]
+    rfl
+  · intro h
+    have := congrFun (congrFun h 0) 0
+    simp only [Matrix.cons_val_zero, Matrix.cons_val_one, Matrix.cons_val_two, Matrix.head_cons,
+      Matrix.tail_cons] at this
+    rw [euler_to_u_eq_eulerMat, cos_wrap, sin_wrap, hc, Real.cos_zero, Real.sin_zero, h00] at this
+    simp [eulerMat] at this
+    linarith
+
+namespace C03
+/-- a concrete rational proper rotation with `Φ = π/2`, used for non-vacuity examples -/
+def Uex : Matrix (Fin 3) (Fin 3) ℝ := !![12/25, -16/25, 3/5; 9/25, -12/25, -4/5; 4/5, 3/5, 0]
+
+lemma Uex_isRot : IsRot Uex := by
+  constructor
+  · ext i j; fin_cases i <;> fin_cases j <;>
+      simp [Uex, Matrix.mul_apply, Fin.sum_univ_three] <;> norm_num
+  · simp [Uex, Matrix.det_fin_three]; norm_num
+end C03
+
+example : ∃ e, Tools.u_to_euler Uex = some e ∧ Tools.euler_to_u (e 0) (e 1) (e 2) = Uex := by
+  have two := Real.two_le_pi
+  have h22 : Uex 2 2 = 0 := by simp [Uex]
+  have h12 : Uex 1 2 = -4/5 := by simp [Uex]
+  have h02 : Uex 0 2 = 3/5 := by simp [Uex]
+  have h21 : Uex 2 1 = 3/5 := by simp [Uex]
+  have h20 : Uex 2 0 = 4/5 := by simp [Uex]
+  apply euler_roundtrip_generic Uex_isRot
+  · rw [h22, Real.arccos_zero, abs_of_pos (by positivity), not_lt]; norm_num; linarith
+  · rw [h22, Real.arccos_zero, abs_of_neg (by linarith), not_lt]; norm_num; linarith
+  · rw [h12, h02]; norm_num [abs_of_pos, max_def]
+  · rw [h12, h02]; norm_num [abs_of_pos, max_def]
+  · rw [h21, h20]; norm_num [abs_of_pos, max_def]
+  · rw [h21, h20]; norm_num [abs_of_pos, max_def]
+
+example : Tools.u_to_euler (Tools.euler_to_u (Real.pi / 4) (Real.pi / 2) (Real.pi / 4))
+    = some ![Real.pi / 4, Real.pi / 2, Real.pi / 4] := by
+  have two := Real.two_le_pi
+  have hp := Real.pi_pos
+  have hs : (0:ℝ) < Real.sqrt 2 / 2 := by positivity
+  have hz : ¬ |Real.sqrt 2 / 2| < 1e-8 * max |Real.sqrt 2 / 2| |Real.sqrt 2 / 2| := by
+    rw [max_self, abs_of_pos hs, not_lt]; norm_num
+  apply u_to_euler_euler_to_u_exact
+  · constructor <;> linarith
+  · constructor <;> norm_num <;> linarith
+  · constructor <;> linarith
+  all_goals (rw [Real.cos_pi_div_four, Real.sin_pi_div_four]; exact hz)
+
+example : ∃ e, Tools.u_to_euler (Rz (Real.pi / 4)) = some e ∧
+    Tools.euler_to_u (e 0) (e 1) (e 2) = Rz (Real.pi / 4) := by
+  have hs : (0:ℝ) < Real.sqrt 2 / 2 := by positivity
+  have hz : ¬ |Real.sqrt 2 / 2| < 1e-8 * max |Real.sqrt 2 / 2| |Real.sqrt 2 / 2| := by
+    rw [max_self, abs_of_pos hs, not_lt]; norm_num
+  apply euler_roundtrip_lock0_exact <;>
+    (rw [Real.cos_pi_div_four, Real.sin_pi_div_four]; exact hz)
+
+/-- C03: `_arctan2` is correct: away from the origin and when its relative zeroing does not fire it returns the polar
+angle `t ∈ (-π, π]` of `(x, y)`: `cos t = x/√(x²+y²)`, `sin t = y/√(x²+y²)`. -/
+theorem arctan2_correct {y x : ℝ} (h : x ≠ 0 ∨ y ≠ 0)
+    (hzx : ¬ |x| < 1e-8 * max |x| |y|) (hzy : ¬ |y| < 1e-8 * max |x| |y|) :
+    ∃ t, Tools._arctan2 y x = some t ∧ -Real.pi < t ∧ t ≤ Real.pi ∧
+      Real.cos t = x / Real.sqrt (x ^ 2 + y ^ 2) ∧ Real.sin t = y / Real.sqrt (x ^ 2 + y ^ 2) := by
+  obtain ⟨t, ht, h1, h2, hc, hs⟩ := arctan2_spec h
+  simp only [zx, zy, if_neg hzx, if_neg hzy] at hc hs
+  exact ⟨t, ht, h1, h2, hc, hs⟩
+
+/-- C03: the Euler-inverse clause in one statement: on EVERY proper rotation `u_to_euler` returns angles in
+`[0,2π] × [0,π] × [0,2π]` that rebuild the input to within `1e-6` entrywise (generic, at and near gimbal lock). -/
+theorem u_to_euler_inverts {U : Matrix (Fin 3) (Fin 3) ℝ} (hU : IsRot U) :
+    ∃ e, Tools.u_to_euler U = some e ∧
+      (0 ≤ e 0 ∧ e 0 ≤ 2 * Real.pi) ∧ (0 ≤ e 1 ∧ e 1 ≤ Real.pi) ∧ (0 ≤ e 2 ∧ e 2 ≤ 2 * Real.pi) ∧
+      ∀ i j, |Tools.euler_to_u (e 0) (e 1) (e 2) i j - U i j| ≤ 1e-6 := by
+  obtain ⟨e, he, hb⟩ := u_to_euler_roundtrip hU
+  obtain ⟨r0, r1, r2⟩ := u_to_euler_range he
+  exact ⟨e, he, r0, r1, r2, hb⟩
+
+/-- C03: in particular `u_to_euler` inverts `euler_to_u` for all real angles. -/
+theorem u_to_euler_euler_to_u (φ1 Φ φ2 : ℝ) :
+    ∃ e, Tools.u_to_euler (Tools.euler_to_u φ1 Φ φ2) = some e ∧
+      ∀ i j, |Tools.euler_to_u (e 0) (e 1) (e 2) i j - Tools.euler_to_u φ1 Φ φ2 i j| ≤ 1e-6 :=
+  u_to_euler_roundtrip (euler_to_u_isRot φ1 Φ φ2)
+
+/-! #### laue twins of 8 -/
+
+/-- C03 (laue): `_arctan2` result range `(-π, π]`. -/
+theorem arctan2_range_laue {y x t : ℝ} (h : Laue._arctan2 y x = some t) :
+    -Real.pi < t ∧ t ≤ Real.pi := by
+  rw [laue_arctan2] at h; exact arctan2_range h
+
+/-- C03 (laue): `_arctan2` is correct when its zeroing does not fire. -/
+theorem arctan2_correct_laue {y x : ℝ} (h : x ≠ 0 ∨ y ≠ 0)
+    (hzx : ¬ |x| < 1e-8 * max |x| |y|) (hzy : ¬ |y| < 1e-8 * max |x| |y|) :
+    ∃ t, Laue._arctan2 y x = some t ∧ -Real.pi < t ∧ t ≤ Real.pi ∧
+      Real.cos t = x / Real.sqrt (x ^ 2 + y ^ 2) ∧ Real.sin t = y / Real.sqrt (x ^ 2 + y ^ 2) := by
+  rw [laue_arctan2]; exact arctan2_correct h hzx hzy
+
+/-- C03 (laue): `_arctan2` never fails away from the origin and is accurate to `1e-8` in cos/sin. -/
+theorem arctan2_approx_laue {y x : ℝ} (h : x ≠ 0 ∨ y ≠ 0) :
+    ∃ t, Laue._arctan2 y x = some t ∧
+      |Real.cos t - x / Real.sqrt (x ^ 2 + y ^ 2)| ≤ 1e-8 ∧
+      |Real.sin t - y / Real.sqrt (x ^ 2 + y ^ 2)| ≤ 1e-8 := by
+  rw [laue_arctan2]; exact arctan2_approx h
+
+/-- C03 (laue): `u_to_euler` returns angles in `[0,2π] × [0,π] × [0,2π]`. -/
+theorem u_to_euler_range_laue {U : Matrix (Fin 3) (Fin 3) ℝ} {e : Fin 3 → ℝ}
+    (h : Laue.u_to_euler U = some e) :
+    (0 ≤ e 0 ∧ e 0 ≤ 2 * Real.pi) ∧ (0 ≤ e 1 ∧ e 1 ≤ Real.pi) ∧ (0 ≤ e 2 ∧ e 2 ≤ 2 * Real.pi) := by
+  rw [laue_u_to_euler] at h; exact u_to_euler_range h
+
+/-- C03 (laue): exact generic round trip. -/
+theorem euler_roundtrip_generic_laue {U : Matrix (Fin 3) (Fin 3) ℝ} (hU : IsRot U)
+    (h0 : ¬ |Real.arccos (U 2 2)| < 1e-8) (hπ : ¬ |Real.arccos (U 2 2) - Real.pi| < 1e-8)
+    (hz1x : ¬ |-(U 1 2)| < 1e-8 * max |-(U 1 2)| |U 0 2|)
+    (hz1y : ¬ |U 0 2| < 1e-8 * max |-(U 1 2)| |U 0 2|)
+    (hz2x : ¬ |U 2 1| < 1e-8 * max |U 2 1| |U 2 0|)
+    (hz2y : ¬ |U 2 0| < 1e-8 * max |U 2 1| |U 2 0|) :
+    ∃ e, Laue.u_to_euler U = some e ∧ Laue.euler_to_u (e 0) (e 1) (e 2) = U := by
+  rw [laue_u_to_euler, laue_euler_to_u]
+  exact euler_roundtrip_generic hU h0 hπ hz1x hz1y hz2x hz2y
+
+/-- C03 (laue): generic round trip to `4e-8` without zeroing hypotheses. -/
+theorem euler_roundtrip_generic_approx_laue {U : Matrix (Fin 3) (Fin 3) ℝ} (hU : IsRot U)
+    (h0 : ¬ |Real.arccos (U 2 2)| < 1e-8) (hπ : ¬ |Real.arccos (U 2 2) - Real.pi| < 1e-8) :
+    ∃ e, Laue.u_to_euler U = some e ∧
+      ∀ i j, |Laue.euler_to_u (e 0) (e 1) (e 2) i j - U i j| ≤ 4e-8 := by
+  rw [laue_u_to_euler, laue_euler_to_u]; exact euler_roundtrip_generic_approx hU h0 hπ
+
+/-- C03 (laue): round trip at / near the `Φ = 0` gimbal lock. -/
+theorem euler_roundtrip_lock0_laue {U : Matrix (Fin 3) (Fin 3) ℝ} (hU : IsRot U)
+    (h0 : |Real.arccos (U 2 2)| < 1e-8) :
+    ∃ e, Laue.u_to_euler U = some e ∧
+      ∀ i j, |Laue.euler_to_u (e 0) (e 1) (e 2) i j - U i j| ≤ 1e-6 := by
+  rw [laue_u_to_euler, laue_euler_to_u]; exact euler_roundtrip_lock0 hU h0
+
+/-- C03 (laue): round trip at / near the `Φ = π` gimbal lock. -/
+theorem euler_roundtrip_lockpi_laue {U : Matrix (Fin 3) (Fin 3) ℝ} (hU : IsRot U)
+    (hπ : |Real.arccos (U 2 2) - Real.pi| < 1e-8) :
+    ∃ e, Laue.u_to_euler U = some e ∧
+      ∀ i j, |Laue.euler_to_u (e 0) (e 1) (e 2) i j - U i j| ≤ 1e-6 := by
+  rw [laue_u_to_euler, laue_euler_to_u]; exact euler_roundtrip_lockpi hU hπ
+
+/-- C03 (laue): `u_to_euler` inverts `euler_to_u` on every proper rotation to within `1e-6`. -/
+theorem u_to_euler_roundtrip_laue {U : Matrix (Fin 3) (Fin 3) ℝ} (hU : IsRot U) :
+    ∃ e, Laue.u_to_euler U = some e ∧
+      ∀ i j, |Laue.euler_to_u (e 0) (e 1) (e 2) i j - U i j| ≤ 1e-6 := by
+  rw [laue_u_to_euler, laue_euler_to_u]; exact u_to_euler_roundtrip hU
+
+/-- C03 (laue): the Euler-inverse clause in one statement. -/
+theorem u_to_euler_inverts_laue {U : Matrix (Fin 3) (Fin 3) ℝ} (hU : IsRot U) :
+    ∃ e, Laue.u_to_euler U = some e ∧
+      (0 ≤ e 0 ∧ e 0 ≤ 2 * Real.pi) ∧ (0 ≤ e 1 ∧ e 1 ≤ Real.pi) ∧ (0 ≤ e 2 ∧ e 2 ≤ 2 * Real.pi) ∧
+      ∀ i j, |Laue.euler_to_u (e 0) (e 1) (e 2) i j - U i j| ≤ 1e-6 := by
+  rw [laue_u_to_euler, laue_euler_to_u]; exact u_to_euler_inverts hU
+
+/-- C03 (laue): `u_to_euler` inverts `euler_to_u` for all real angles. -/
+theorem u_to_euler_euler_to_u_laue (φ1 Φ φ2 : ℝ) :
+    ∃ e, Laue.u_to_euler (Laue.euler_to_u φ1 Φ φ2) = some e ∧
+      ∀ i j, |Laue.euler_to_u (e 0) (e 1) (e 2) i j - Laue.euler_to_u φ1 Φ φ2 i j| ≤ 1e-6 := by
+  rw [laue_u_to_euler, laue_euler_to_u]; exact u_to_euler_euler_to_u φ1 Φ φ2
+
+/-- C03 (laue): exact recovery of the Euler angles away from lock and zeroing zones. -/
+theorem u_to_euler_euler_to_u_exact_laue {φ1 Φ φ2 : ℝ}
+    (h1 : 0 ≤ φ1 ∧ φ1 < 2 * Real.pi) (hΦ : 1e-8 ≤ Φ ∧ Φ ≤ Real.pi - 1e-8)
+    (h2 : 0 ≤ φ2 ∧ φ2 < 2 * Real.pi)
+    (hz1c : ¬ |Real.cos φ1| < 1e-8 * max |Real.cos φ1| |Real.sin φ1|)
+    (hz1s : ¬ |Real.sin φ1| < 1e-8 * max |Real.cos φ1| |Real.sin φ1|)
+    (hz2c : ¬ |Real.cos φ2| < 1e-8 * max |Real.cos φ2| |Real.sin φ2|)
+    (hz2s : ¬ |Real.sin φ2| < 1e-8 * max |Real.cos φ2| |Real.sin φ2|) :
+    Laue.u_to_euler (Laue.euler_to_u φ1 Φ φ2) = some ![φ1, Φ, φ2] := by
+  rw [laue_u_to_euler, laue_euler_to_u]
+  exact u_to_euler_euler_to_u_exact h1 hΦ h2 hz1c hz1s hz2c hz2s
+
+/-- C03 (laue): exact round trip at the `Φ = 0` lock outside the zeroing zone. -/
+theorem euler_roundtrip_lock0_exact_laue (a : ℝ)
+    (hzx : ¬ |Real.cos a| < 1e-8 * max |Real.cos a| |Real.sin a|)
+    (hzy : ¬ |Real.sin a| < 1e-8 * max |Real.cos a| |Real.sin a|) :
+    ∃ e, Laue.u_to_euler (Rz a) = some e ∧ Laue.euler_to_u (e 0) (e 1) (e 2) = Rz a := by
+  rw [laue_u_to_euler, laue_euler_to_u]; exact euler_roundtrip_lock0_exact a hzx hzy
+
+/-- C03 (laue): exact round trip at the `Φ = π` lock outside the zeroing zone. -/
+theorem euler_roundtrip_lockpi_exact_laue (a : ℝ)
+    (hzx : ¬ |Real.cos a| < 1e-8 * max |Real.cos a| |Real.sin a|)
+    (hzy : ¬ |Real.sin a| < 1e-8 * max |Real.cos a| |Real.sin a|) :
+    ∃ e, Laue.u_to_euler (Rz a * Rx Real.pi) = some e ∧
+      Laue.euler_to_u (e 0) (e 1) (e 2) = Rz a * Rx Real.pi := by
+  rw [laue_u_to_euler, laue_euler_to_u]; exact euler_roundtrip_lockpi_exact a hzx hzy
+
+/-- C03 (laue, finding): the lock round trip is not exact inside the zeroing zone. -/
+theorem euler_roundtrip_lock0_not_exact_laue :
+    ∃ a e, Laue.u_to_euler (Rz a) = some e ∧ Laue.euler_to_u (e 0) (e 1) (e 2) ≠ Rz a := by
+  rw [laue_u_to_euler, laue_euler_to_u]; exact euler_roundtrip_lock0_not_exact
